@@ -82,3 +82,3164 @@ pub fn lifecycle(ctx: &mut Ctx) {
     ctx.count("managers_created_and_dropped", rounds as u64);
     ctx.sample(|| "create a manager and drop it at once / drop the ManagerRef before its functions / clone+drop / drop on another thread; LIVE_STORES must return to the baseline".into());
 }
+
+// =================================================================================================
+// FFI monitors: the real `oxidd-ffi-c` sources (package `ffi_rlib`, built as an rlib) are called
+// in-process through `extern "C"` declarations with `#[repr(C)]` mirrors of the C types.
+// Compiled out for the pointer-based manager (the FFI package is built for the index manager).
+// =================================================================================================
+
+#[cfg(not(feature = "pointer"))]
+pub use ffi::{c19_ffi, c19_ffi_enum};
+
+#[cfg(not(feature = "pointer"))]
+#[allow(non_camel_case_types, clippy::missing_safety_doc, dead_code)]
+mod ffi {
+    use std::collections::{BTreeSet, HashMap, HashSet};
+    use std::ffi::{CString, c_char, c_void};
+    use std::mem::{ManuallyDrop, MaybeUninit};
+    use std::path::{Path, PathBuf};
+    use std::ptr::{null, null_mut};
+    use std::sync::Mutex;
+
+    use oxidd::util::OptBool;
+    use oxidd::{
+        BooleanFunction, BooleanVecSet, Edge, Function, HasLevel, HasWorkers, Manager, ManagerRef, Node, NodeID,
+        RawFunction, RawManagerRef, Subst,
+    };
+    use oxidd_core::function::INodeOfFunc;
+    use oxidd_dump::dddmp::{self, DumpHeader};
+
+    use super::{live_stores, wait_for};
+    use crate::kinds::*;
+    use crate::rng::Rng;
+    use crate::tt::{ALL_BOPS, ALL_QUANTS, BOp, Quant, Tt};
+    use crate::{Ctx, audit};
+
+    // link the object code of the FFI crate
+    extern crate oxidd_ffi_rlib;
+
+    // ---------------------------------------------------------------------------------------------
+    // C types (layouts copied from oxidd-ffi-c/src/{bdd,bcdd,zbdd}.rs, util/mod.rs, util/interop.rs,
+    // util/dddmp.rs, util/num.rs)
+    // ---------------------------------------------------------------------------------------------
+
+    /// `oxidd_{bdd,bcdd,zbdd}_manager_t`
+    #[repr(C)]
+    #[derive(Clone, Copy, PartialEq, Eq, Hash, Debug)]
+    pub struct CMgr {
+        p: *const c_void,
+    }
+    /// `oxidd_{bdd,bcdd,zbdd}_t`
+    #[repr(C)]
+    #[derive(Clone, Copy, PartialEq, Eq, Hash, Debug)]
+    pub struct CFn {
+        p: *const c_void,
+        i: usize,
+    }
+    const INVALID: CFn = CFn { p: null(), i: 0 };
+    /// `oxidd_*_pair_t`
+    #[repr(C)]
+    pub struct CPair {
+        first: CFn,
+        second: CFn,
+    }
+    #[repr(C)]
+    #[derive(Clone, Copy, Debug)]
+    pub struct CRange {
+        start: u32,
+        end: u32,
+    }
+    #[repr(C)]
+    #[derive(Clone, Copy, Debug)]
+    pub struct CDup {
+        added: CRange,
+        present_var: u32,
+    }
+    #[repr(C)]
+    #[derive(Clone, Copy)]
+    pub struct CVarBool {
+        var: u32,
+        val: bool,
+    }
+    #[repr(C)]
+    pub struct CAssign {
+        data: *mut i8,
+        len: usize,
+    }
+    #[repr(C)]
+    pub struct CNat {
+        ptr: *mut u64,
+        len: u64,
+        shl: u64,
+    }
+    /// `oxidd_str_t` (borrowed)
+    #[repr(C)]
+    #[derive(Clone, Copy)]
+    pub struct CStrT {
+        ptr: *const c_char,
+        len: usize,
+    }
+    /// `oxidd_string_t` (owned)
+    #[repr(C)]
+    pub struct CStringT {
+        data: *const c_char,
+        len: usize,
+        cap: usize,
+    }
+    #[repr(C)]
+    pub struct CErr {
+        msg: CStringT,
+    }
+    #[repr(C)]
+    #[derive(Clone, Copy)]
+    pub struct COpt<T: Copy> {
+        is_some: bool,
+        value: MaybeUninit<T>,
+    }
+    #[repr(C)]
+    pub struct CSizeHint {
+        lower: usize,
+        upper: usize,
+    }
+    #[repr(C)]
+    pub struct CIter<T: Copy> {
+        next: extern "C" fn(*mut c_void) -> COpt<T>,
+        size_hint: Option<extern "C" fn(*mut c_void) -> CSizeHint>,
+        context: *mut c_void,
+    }
+    #[repr(C)]
+    #[derive(Clone, Copy)]
+    pub struct CNamed<T: Copy> {
+        func: T,
+        name: CStrT,
+    }
+    #[repr(C)]
+    #[derive(Clone, Copy)]
+    pub struct CSlice<T> {
+        ptr: *const T,
+        len: usize,
+    }
+    #[repr(C)]
+    pub struct CDddmpSettings {
+        version: u8,
+        ascii: bool,
+        strict: bool,
+        diagram_name: CStrT,
+    }
+
+    type PoolCb = extern "C" fn(*mut c_void) -> *mut c_void;
+    type NameCb = extern "C" fn(*mut c_void, *const c_char, usize) -> *mut c_void;
+
+    // ---------------------------------------------------------------------------------------------
+    // extern declarations, generated once per kind from one list
+    // ---------------------------------------------------------------------------------------------
+
+    macro_rules! lname {
+        ($k:literal, $f:ident) => {
+            concat!("oxidd_", $k, "_", stringify!($f))
+        };
+        ($k:literal, $f:ident, $l:literal) => {
+            concat!("oxidd_", $k, "_", $l)
+        };
+    }
+    macro_rules! def_struct {
+        ($name:ident; $( $f:ident $(= $l:literal)? ( $($a:ident : $t:ty),* ) $(-> $r:ty)? ; )* ) => {
+            pub struct $name { $( pub $f: unsafe extern "C" fn($($t),*) $(-> $r)?, )* }
+        };
+    }
+    macro_rules! def_mod {
+        ($m:ident $k:literal $st:ident; $( $f:ident $(= $l:literal)? ( $($a:ident : $t:ty),* ) $(-> $r:ty)? ; )* ) => {
+            pub mod $m {
+                use super::*;
+                unsafe extern "C" {
+                    $( #[link_name = lname!($k, $f $(, $l)?)] pub fn $f($($a: $t),*) $(-> $r)?; )*
+                }
+                pub static API: $st = $st { $( $f, )* };
+            }
+        };
+    }
+    macro_rules! common_fns {
+        ($cb:ident; $($pre:tt)*) => { $cb!{ $($pre)*
+            manager_new(inner: usize, cache: usize, threads: u32) -> CMgr;
+            manager_ref(m: CMgr) -> CMgr;
+            manager_unref(m: CMgr);
+            ref_ = "ref"(f: CFn) -> CFn;
+            unref(f: CFn);
+            manager_run_in_worker_pool(m: CMgr, cb: PoolCb, data: *mut c_void) -> *mut c_void;
+            containing_manager(f: CFn) -> CMgr;
+            manager_num_inner_nodes(m: CMgr) -> usize;
+            manager_approx_num_inner_nodes(m: CMgr) -> usize;
+            manager_num_vars(m: CMgr) -> u32;
+            manager_num_named_vars(m: CMgr) -> u32;
+            manager_add_vars(m: CMgr, additional: u32) -> CRange;
+            manager_add_named_vars(m: CMgr, names: *const *const c_char, count: u32) -> CDup;
+            manager_add_named_vars_iter(m: CMgr, iter: CIter<CStrT>) -> CDup;
+            manager_var_name(m: CMgr, var: u32, len: *mut usize) -> *const c_char;
+            manager_with_var_name(m: CMgr, var: u32, cb: NameCb, data: *mut c_void) -> *mut c_void;
+            manager_set_var_name(m: CMgr, var: u32, name: *const c_char, len: usize) -> u32;
+            manager_name_to_var(m: CMgr, name: *const c_char, len: usize) -> u32;
+            manager_var_to_level(m: CMgr, var: u32) -> u32;
+            manager_level_to_var(m: CMgr, level: u32) -> u32;
+            manager_gc(m: CMgr) -> usize;
+            manager_gc_count(m: CMgr) -> u64;
+            manager_set_var_order(m: CMgr, order: *const u32, len: usize);
+            manager_import_dddmp(m: CMgr, file: *mut c_void, support_vars: *const u32, roots: *mut CFn, error: *mut CErr) -> bool;
+            manager_export_dddmp(m: CMgr, path: *const c_char, path_len: usize, functions: *const CFn, num: usize, names: *const *const c_char, settings: *const CDddmpSettings, error: *mut CErr) -> bool;
+            manager_export_dddmp_iter(m: CMgr, path: *const c_char, path_len: usize, functions: CIter<CFn>, settings: *const CDddmpSettings, error: *mut CErr) -> bool;
+            manager_export_dddmp_with_names_iter(m: CMgr, path: *const c_char, path_len: usize, functions: CIter<CNamed<CFn>>, settings: *const CDddmpSettings, error: *mut CErr) -> bool;
+            manager_visualize(m: CMgr, name: *const c_char, name_len: usize, functions: *const CFn, num: usize, names: *const *const c_char, port: u16, error: *mut CErr) -> bool;
+            manager_visualize_iter(m: CMgr, name: *const c_char, name_len: usize, functions: CIter<CFn>, port: u16, error: *mut CErr) -> bool;
+            manager_visualize_with_names_iter(m: CMgr, name: *const c_char, name_len: usize, functions: CIter<CNamed<CFn>>, port: u16, error: *mut CErr) -> bool;
+            manager_dump_all_dot_path(m: CMgr, path: *const c_char, path_len: usize, functions: *const CFn, names: *const *const c_char, num: usize, error: *mut CErr) -> bool;
+            manager_dump_all_dot_path_iter(m: CMgr, path: *const c_char, path_len: usize, functions: CIter<CNamed<CFn>>, error: *mut CErr) -> bool;
+            var(m: CMgr, v: u32) -> CFn;
+            not_var(m: CMgr, v: u32) -> CFn;
+            false_ = "false"(m: CMgr) -> CFn;
+            true_ = "true"(m: CMgr) -> CFn;
+            cofactors(f: CFn) -> CPair;
+            cofactor_true(f: CFn) -> CFn;
+            cofactor_false(f: CFn) -> CFn;
+            node_level(f: CFn) -> u32;
+            node_var(f: CFn) -> u32;
+            not(f: CFn) -> CFn;
+            and(a: CFn, b: CFn) -> CFn;
+            or(a: CFn, b: CFn) -> CFn;
+            nand(a: CFn, b: CFn) -> CFn;
+            nor(a: CFn, b: CFn) -> CFn;
+            xor(a: CFn, b: CFn) -> CFn;
+            equiv(a: CFn, b: CFn) -> CFn;
+            imp(a: CFn, b: CFn) -> CFn;
+            imp_strict(a: CFn, b: CFn) -> CFn;
+            ite(a: CFn, b: CFn, c: CFn) -> CFn;
+            node_count(f: CFn) -> usize;
+            satisfiable(f: CFn) -> bool;
+            valid(f: CFn) -> bool;
+            sat_count(f: CFn, vars: u32) -> CNat;
+            sat_count_double(f: CFn, vars: u32) -> f64;
+            pick_cube(f: CFn) -> CAssign;
+            pick_cube_dd(f: CFn) -> CFn;
+            pick_cube_dd_set(f: CFn, lits: CFn) -> CFn;
+            eval(f: CFn, args: *const CVarBool, n: usize) -> bool;
+            print_stats();
+        }};
+    }
+    macro_rules! quant_fns {
+        ($cb:ident; $($pre:tt)*) => { $cb!{ $($pre)*
+            substitute(f: CFn, s: *const c_void) -> CFn;
+            substitution_new(capacity: usize) -> *mut c_void;
+            substitution_add_pair(s: *mut c_void, var: u32, replacement: CFn);
+            substitution_free(s: *mut c_void);
+            restrict(f: CFn, vars: CFn) -> CFn;
+            forall(f: CFn, vars: CFn) -> CFn;
+            exists(f: CFn, vars: CFn) -> CFn;
+            unique(f: CFn, vars: CFn) -> CFn;
+            apply_forall(op: u8, a: CFn, b: CFn, vars: CFn) -> CFn;
+            apply_exists(op: u8, a: CFn, b: CFn, vars: CFn) -> CFn;
+            apply_unique(op: u8, a: CFn, b: CFn, vars: CFn) -> CFn;
+        }};
+    }
+    macro_rules! zbdd_fns {
+        ($cb:ident; $($pre:tt)*) => { $cb!{ $($pre)*
+            singleton(m: CMgr, v: u32) -> CFn;
+            make_node(var: CFn, hi: CFn, lo: CFn) -> CFn;
+            empty(m: CMgr) -> CFn;
+            base(m: CMgr) -> CFn;
+            subset0(f: CFn, v: u32) -> CFn;
+            subset1(f: CFn, v: u32) -> CFn;
+            change(f: CFn, v: u32) -> CFn;
+            union_ = "union"(a: CFn, b: CFn) -> CFn;
+            intsec(a: CFn, b: CFn) -> CFn;
+            diff(a: CFn, b: CFn) -> CFn;
+        }};
+    }
+    common_fns!(def_struct; CommonApi;);
+    quant_fns!(def_struct; QuantApi;);
+    zbdd_fns!(def_struct; ZbddApi;);
+    common_fns!(def_mod; bdd_c "bdd" CommonApi;);
+    common_fns!(def_mod; bcdd_c "bcdd" CommonApi;);
+    common_fns!(def_mod; zbdd_c "zbdd" CommonApi;);
+    quant_fns!(def_mod; bdd_q "bdd" QuantApi;);
+    quant_fns!(def_mod; bcdd_q "bcdd" QuantApi;);
+    zbdd_fns!(def_mod; zbdd_z "zbdd" ZbddApi;);
+
+    // kind-independent entry points (util/mod.rs, util/interop.rs, util/num.rs, util/dddmp.rs)
+    unsafe extern "C" {
+        fn oxidd_error_clone(e: *const CErr) -> CErr;
+        fn oxidd_error_free(e: CErr);
+        fn oxidd_assignment_free(a: CAssign);
+        fn oxidd_string_clone(s: *const CStringT) -> CStringT;
+        fn oxidd_string_free(s: CStringT);
+        fn oxidd_natural_free(n: CNat);
+        fn oxidd_natural_eq(a: *const CNat, b: *const CNat) -> bool;
+        fn oxidd_natural_cmp(a: *const CNat, b: *const CNat) -> i8;
+        fn oxidd_natural_to_string(n: *const CNat) -> CStringT;
+        fn oxidd_natural_clone(n: *const CNat) -> CNat;
+        fn oxidd_dddmp_open(path: *const c_char, path_len: usize, error: *mut CErr) -> *mut c_void;
+        fn oxidd_dddmp_close(file: *mut c_void);
+        fn oxidd_dddmp_diagram_name(file: *const c_void) -> CStrT;
+        fn oxidd_dddmp_num_nodes(file: *const c_void) -> usize;
+        fn oxidd_dddmp_num_vars(file: *const c_void) -> u32;
+        fn oxidd_dddmp_num_support_vars(file: *const c_void) -> u32;
+        fn oxidd_dddmp_support_vars(file: *const c_void) -> CSlice<u32>;
+        fn oxidd_dddmp_support_var_order(file: *const c_void) -> CSlice<u32>;
+        fn oxidd_dddmp_support_var_to_level(file: *const c_void) -> CSlice<u32>;
+        fn oxidd_dddmp_has_var_names(file: *const c_void) -> bool;
+        fn oxidd_dddmp_var_name(file: *const c_void, i: u32) -> CStrT;
+        fn oxidd_dddmp_num_roots(file: *const c_void) -> usize;
+        fn oxidd_dddmp_has_root_names(file: *const c_void) -> bool;
+        fn oxidd_dddmp_root_name(file: *const c_void, i: usize) -> CStrT;
+        // libc
+        fn free(p: *mut c_void);
+    }
+
+    // ---------------------------------------------------------------------------------------------
+    // small helpers around the C types
+    // ---------------------------------------------------------------------------------------------
+
+    /// every `oxidd_*` symbol called at least once in this process
+    static COVERED: Mutex<BTreeSet<String>> = Mutex::new(BTreeSet::new());
+    fn cover(name: &str) {
+        COVERED.lock().unwrap().insert(name.to_string());
+    }
+
+    struct SendPtr<T>(T);
+    unsafe impl<T> Send for SendPtr<T> {}
+
+    unsafe fn str_of(s: CStrT) -> String {
+        if s.ptr.is_null() || s.len == 0 {
+            return String::new();
+        }
+        String::from_utf8_lossy(unsafe { std::slice::from_raw_parts(s.ptr.cast::<u8>(), s.len) }).into_owned()
+    }
+    unsafe fn string_of(s: &CStringT) -> String {
+        if s.data.is_null() {
+            return "<null>".into();
+        }
+        String::from_utf8_lossy(unsafe { std::slice::from_raw_parts(s.data.cast::<u8>(), s.len) }).into_owned()
+    }
+    fn strt(s: &str) -> CStrT {
+        CStrT { ptr: s.as_ptr().cast(), len: s.len() }
+    }
+
+    const POISON_LEN: usize = 0xDEAD_0001;
+    /// an error slot the callee must overwrite ("guaranteed to be initialized on return")
+    fn poison_err() -> CErr {
+        CErr { msg: CStringT { data: 1 as *const c_char, len: POISON_LEN, cap: 0 } }
+    }
+    /// (initialized?, message); frees the error (also exercises oxidd_error_clone)
+    unsafe fn take_err(e: CErr) -> (bool, String) {
+        if e.msg.len == POISON_LEN {
+            return (false, String::new());
+        }
+        let msg = unsafe { string_of(&e.msg) };
+        let c = unsafe { oxidd_error_clone(&e) };
+        cover("oxidd_error_clone");
+        let msg2 = unsafe { string_of(&c.msg) };
+        unsafe { oxidd_error_free(c) };
+        unsafe { oxidd_error_free(e) };
+        cover("oxidd_error_free");
+        if msg2 != msg {
+            return (true, format!("<error clone differs: {msg:?} vs {msg2:?}>"));
+        }
+        (true, msg)
+    }
+
+    struct IterCtx<T: Copy> {
+        items: Vec<T>,
+        pos: usize,
+    }
+    extern "C" fn iter_next<T: Copy>(ctx: *mut c_void) -> COpt<T> {
+        let c = unsafe { &mut *(ctx as *mut IterCtx<T>) };
+        if c.pos < c.items.len() {
+            c.pos += 1;
+            COpt { is_some: true, value: MaybeUninit::new(c.items[c.pos - 1]) }
+        } else {
+            COpt { is_some: false, value: MaybeUninit::uninit() }
+        }
+    }
+    extern "C" fn iter_hint<T: Copy>(ctx: *mut c_void) -> CSizeHint {
+        let c = unsafe { &*(ctx as *mut IterCtx<T>) };
+        let r = c.items.len() - c.pos;
+        CSizeHint { lower: r, upper: r }
+    }
+    fn c_iter<T: Copy>(ctx: &mut IterCtx<T>, with_hint: bool) -> CIter<T> {
+        CIter {
+            next: iter_next::<T>,
+            size_hint: if with_hint { Some(iter_hint::<T>) } else { None },
+            context: (ctx as *mut IterCtx<T>).cast(),
+        }
+    }
+
+    /// value of a `natural_t` if it is stored inline and fits u128
+    fn nat_small(n: &CNat) -> Option<u128> {
+        if !n.ptr.is_null() || n.shl == u64::MAX || n.shl > 60 {
+            return None;
+        }
+        Some((n.len as u128) << n.shl)
+    }
+
+    #[derive(Debug, Clone)]
+    pub struct DumpInfo {
+        nvars: u32,
+        nroots: usize,
+        nnodes: usize,
+        support_vars: Vec<u32>,
+        root_names: Option<Vec<String>>,
+        var_names: Option<Vec<String>>,
+        diagram_name: Option<String>,
+    }
+
+    #[derive(Clone, Copy, Debug, PartialEq, Eq, Hash)]
+    pub enum ZOp {
+        Singleton,
+        Subset0,
+        Subset1,
+        Change,
+        Union,
+        Intsec,
+        Diff,
+        MakeNode,
+        Empty,
+        Base,
+    }
+
+    // ---------------------------------------------------------------------------------------------
+    // kinds
+    // ---------------------------------------------------------------------------------------------
+
+    pub trait FfiKind: BoolKind {
+        fn api() -> &'static CommonApi;
+        fn qapi() -> Option<&'static QuantApi> {
+            None
+        }
+        fn zapi() -> Option<&'static ZbddApi> {
+            None
+        }
+        /// view a C manager handle as the Rust manager reference it was made from (no count change)
+        unsafe fn mgr_of(c: CMgr) -> ManuallyDrop<MRefOf<Self>>;
+        /// view a C function handle as the Rust function it was made from (no count change)
+        unsafe fn func_of(c: CFn) -> ManuallyDrop<Self::F>;
+        /// `oxidd_dump` import of a DDDMP file into `mref` (identity variable mapping)
+        fn import_file(mref: &MRefOf<Self>, path: &Path) -> Result<(Vec<Self::F>, DumpInfo), String>;
+        /// `oxidd_dump` export of `roots` (Rust side) with the settings the C call was given
+        fn export_bytes(mref: &MRefOf<Self>, roots: &[Self::F], names: Option<&[String]>, settings: Option<(u8, bool, &str)>) -> Result<Vec<u8>, String>;
+        /// Rust API counterpart of the ZBDD-only entry points
+        fn z_mirror(_op: ZOp, _m: &MRefOf<Self>, _a: &[Self::F], _v: u32) -> Self::F {
+            unreachable!()
+        }
+    }
+
+    macro_rules! impl_ffikind {
+        ($K:ty, $api:expr, $q:expr, $z:expr, $MR:ty, $F:ty $(, $zm:item)?) => {
+            impl FfiKind for $K {
+                fn api() -> &'static CommonApi {
+                    $api
+                }
+                fn qapi() -> Option<&'static QuantApi> {
+                    $q
+                }
+                fn zapi() -> Option<&'static ZbddApi> {
+                    $z
+                }
+                unsafe fn mgr_of(c: CMgr) -> ManuallyDrop<$MR> {
+                    ManuallyDrop::new(unsafe { <$MR as RawManagerRef>::from_raw(c.p) })
+                }
+                unsafe fn func_of(c: CFn) -> ManuallyDrop<$F> {
+                    ManuallyDrop::new(unsafe { <$F as RawFunction>::from_raw(c.p, c.i) })
+                }
+                fn import_file(mref: &$MR, path: &Path) -> Result<(Vec<$F>, DumpInfo), String> {
+                    let file = std::fs::File::open(path).map_err(|e| format!("open: {e}"))?;
+                    let mut reader = std::io::BufReader::new(file);
+                    let header = DumpHeader::load(&mut reader).map_err(|e| format!("DumpHeader::load: {e}"))?;
+                    let sv: Vec<u32> = header.support_vars().to_vec();
+                    let fs = mref
+                        .with_manager_shared(|m| {
+                            dddmp::import::<$F>(&mut reader, &header, m, sv.iter().copied(), <$F as BooleanFunction>::not_edge_owned)
+                        })
+                        .map_err(|e| format!("import: {e}"))?;
+                    let info = DumpInfo {
+                        nvars: header.num_vars(),
+                        nroots: header.num_roots(),
+                        nnodes: header.num_nodes(),
+                        support_vars: sv,
+                        root_names: header.root_names().map(|x| x.to_vec()),
+                        var_names: header.var_names().map(|x| x.to_vec()),
+                        diagram_name: header.diagram_name().map(String::from),
+                    };
+                    Ok((fs, info))
+                }
+                fn export_bytes(mref: &$MR, roots: &[$F], names: Option<&[String]>, settings: Option<(u8, bool, &str)>) -> Result<Vec<u8>, String> {
+                    let mut set = dddmp::ExportSettings::default();
+                    if let Some((version, ascii, dname)) = settings {
+                        if ascii {
+                            set = set.ascii();
+                        }
+                        set = set
+                            .version(if version == 0 { dddmp::DDDMPVersion::V2_0 } else { dddmp::DDDMPVersion::V3_0 })
+                            .strict(false)
+                            .diagram_name(dname);
+                    }
+                    let mut buf: Vec<u8> = Vec::new();
+                    mref.with_manager_shared(|m| match names {
+                        None => set.export(&mut buf, m, roots.iter()),
+                        Some(ns) => set.export_with_names(&mut buf, m, roots.iter().zip(ns.iter().map(|n| n.as_str()))),
+                    })
+                    .map_err(|e| e.to_string())?;
+                    Ok(buf)
+                }
+                $($zm)?
+            }
+        };
+    }
+    impl_ffikind!(Bdd, &bdd_c::API, Some(&bdd_q::API), None, oxidd::bdd::BDDManagerRef, oxidd::bdd::BDDFunction);
+    impl_ffikind!(Bcdd, &bcdd_c::API, Some(&bcdd_q::API), None, oxidd::bcdd::BCDDManagerRef, oxidd::bcdd::BCDDFunction);
+    impl_ffikind!(
+        Zbdd,
+        &zbdd_c::API,
+        None,
+        Some(&zbdd_z::API),
+        oxidd::zbdd::ZBDDManagerRef,
+        oxidd::zbdd::ZBDDFunction,
+        fn z_mirror(op: ZOp, mref: &oxidd::zbdd::ZBDDManagerRef, a: &[oxidd::zbdd::ZBDDFunction], v: u32) -> oxidd::zbdd::ZBDDFunction {
+            use oxidd::zbdd::ZBDDFunction as ZF;
+            match op {
+                ZOp::Singleton => mref.with_manager_shared(|m| ZF::singleton(m, v)).unwrap(),
+                ZOp::Empty => mref.with_manager_shared(|m| ZF::empty(m)),
+                ZOp::Base => mref.with_manager_shared(|m| ZF::base(m)),
+                ZOp::Subset0 => a[0].subset0(v).unwrap(),
+                ZOp::Subset1 => a[0].subset1(v).unwrap(),
+                ZOp::Change => a[0].change(v).unwrap(),
+                ZOp::Union => a[0].union(&a[1]).unwrap(),
+                ZOp::Intsec => a[0].intsec(&a[1]).unwrap(),
+                ZOp::Diff => a[0].diff(&a[1]).unwrap(),
+                ZOp::MakeNode => a[0].with_manager_shared(|m, ve| {
+                    let hi = m.clone_edge(a[1].as_edge(m));
+                    let lo = m.clone_edge(a[2].as_edge(m));
+                    let e = oxidd::zbdd::make_node(m, ve, hi, lo).unwrap();
+                    ZF::from_edge(m, e)
+                }),
+            }
+        }
+    );
+
+    // ---------------------------------------------------------------------------------------------
+    // a session: one C manager, its mirror on the Rust API, and the ownership model
+    // ---------------------------------------------------------------------------------------------
+
+    struct Ent<K: FfiKind> {
+        /// serial number used in the call log ("h7")
+        id: u32,
+        c: CFn,
+        /// references the harness owns through this handle (0 for invalid handles)
+        owned: u32,
+        /// mirror on the Rust manager; `None` iff `c` is invalid
+        r: Option<K::F>,
+        /// truth table at admission (refreshed when the variable set / order changes)
+        tt: Option<Tt>,
+        /// conjunction of literals / of positive literals (usable as `vars` operand)
+        cube: bool,
+        pos_cube: bool,
+    }
+
+    struct SubSt<K: FfiKind> {
+        c: *mut c_void,
+        vars: Vec<u32>,
+        /// C handles whose node the substitution holds one reference to
+        holds: Vec<CFn>,
+        repl: Vec<K::F>,
+        used: bool,
+    }
+
+    struct Sess<K: FfiKind> {
+        cm: CMgr,
+        /// manager references owned by the harness (function handles hold their own)
+        mgr_refs: u32,
+        rm: Option<MRefOf<K>>,
+        ents: Vec<Ent<K>>,
+        subs: Vec<SubSt<K>>,
+        log: Vec<String>,
+        next_id: u32,
+        nvars: u32,
+        /// tiny node capacity on the C side: operations may run out of memory
+        small: bool,
+        cfg: String,
+        /// independent model of the variable names
+        names: Vec<String>,
+        identity_order: bool,
+        base_live: i64,
+        dir: PathBuf,
+        file_no: u32,
+        /// handles already owned by the caller but not yet registered in `ents` (multi-result calls)
+        pending: Vec<CFn>,
+        /// a call after which terminal operands may have been leaked / over-released (not visible in node counts)
+        suspect: Option<String>,
+        trace: bool,
+        explicit_gcs: u64,
+        /// switched off after the first ownership violation of a session (everything after it is a consequence)
+        audits: std::cell::Cell<bool>,
+    }
+
+    fn fq<K: FfiKind>(f: &str) -> String {
+        format!("oxidd_{}_{f}", K::NAME)
+    }
+
+    fn tmp_dir() -> PathBuf {
+        let d = PathBuf::from(format!("/tmp/ag19-{}", std::process::id()));
+        let _ = std::fs::create_dir_all(&d);
+        d
+    }
+
+    impl<K: FfiKind> Sess<K>
+    where
+        for<'id> MgrOf<'id, K>: HasWorkers,
+        for<'x> INodeOfFunc<'x, K::F>: HasLevel,
+    {
+        fn new(ctx: &mut Ctx, nvars: u32, cap: usize, small: bool, threads: u32, label: &str) -> Self {
+            let api = K::api();
+            let base_live = live_stores();
+            let cm = unsafe { (api.manager_new)(cap, 1 << 10, threads) };
+            cover(&fq::<K>("manager_new"));
+            let rm = K::new_manager(1 << 14, 1 << 10, threads);
+            let mut s = Sess {
+                cm,
+                mgr_refs: 1,
+                rm: Some(rm),
+                ents: Vec::new(),
+                subs: Vec::new(),
+                log: Vec::new(),
+                next_id: 1,
+                nvars: 0,
+                small,
+                cfg: format!("{} {label}: oxidd_{}_manager_new({cap}, 1024, {threads})", K::NAME, K::NAME),
+                names: Vec::new(),
+                identity_order: true,
+                base_live,
+                dir: tmp_dir(),
+                file_no: 0,
+                pending: Vec::new(),
+                suspect: None,
+                trace: std::env::var_os("VH_C19_TRACE").is_some(),
+                explicit_gcs: 0,
+                audits: std::cell::Cell::new(true),
+            };
+            ctx.eval();
+            if cm.p.is_null() {
+                s.viol(ctx, "null-manager-returned", "manager_new", String::new());
+            }
+            // entry 0: the invalid handle (documented representation: `_p == NULL`)
+            s.ents.push(Ent { id: 0, c: INVALID, owned: 0, r: None, tt: None, cube: false, pos_cube: false });
+            if nvars > 0 {
+                s.add_vars(ctx, nvars);
+            }
+            s
+        }
+
+        /// append to the call log (echoed to stderr with VH_C19_TRACE=1: the log of an aborting run)
+        fn logp(&mut self, line: String) {
+            if self.trace {
+                eprintln!("[c19] {line}");
+            }
+            self.log.push(line);
+        }
+
+        fn rm(&self) -> &MRefOf<K> {
+            self.rm.as_ref().unwrap()
+        }
+
+        fn witness(&self, detail: &str) -> String {
+            let skip = self.log.len().saturating_sub(40);
+            let mut w = format!("{} ; ", self.cfg);
+            if skip > 0 {
+                w.push_str(&format!("[{skip} earlier calls] ; "));
+            }
+            w.push_str(&self.log[skip..].join(" ; "));
+            w.push_str(" => ");
+            w.push_str(detail);
+            w
+        }
+        fn viol(&self, ctx: &mut Ctx, clause: &str, fname: &str, detail: String) {
+            let sig = format!("{}:ffi:{clause}:{fname}", K::NAME);
+            ctx.violation(&sig, self.witness(&detail));
+        }
+        /// one C call: coverage + evidence
+        fn called(&self, ctx: &mut Ctx, fname: &str, shape: &str) {
+            cover(&fq::<K>(fname));
+            ctx.count("ffi_calls", 1);
+            ctx.distinct((K::NAME, fname.to_string(), shape.to_string()));
+        }
+        fn hname(&self, i: usize) -> String {
+            let e = &self.ents[i];
+            if e.id == 0 { "INVALID".into() } else if e.c.p.is_null() { format!("h{}(invalid)", e.id) } else { format!("h{}", e.id) }
+        }
+        /// I = invalid, T = terminal, N = inner node
+        fn shape1(&self, i: usize) -> char {
+            match &self.ents[i].r {
+                None => 'I',
+                Some(f) => {
+                    if f.with_manager_shared(|m, e| matches!(m.get_node(e), Node::Terminal(_))) { 'T' } else { 'N' }
+                }
+            }
+        }
+        fn shape(&self, ops: &[usize]) -> String {
+            let mut s = String::new();
+            for (k, &i) in ops.iter().enumerate() {
+                if ops[..k].contains(&i) {
+                    s.push('=');
+                }
+                s.push(self.shape1(i));
+            }
+            s
+        }
+
+        /// truth table of a valid C handle through `oxidd_*_eval`
+        fn c_table(&self, c: CFn) -> Tt {
+            let n = self.nvars;
+            let eval = K::api().eval;
+            cover(&fq::<K>("eval"));
+            Tt::from_fn(n, |a| {
+                let args: Vec<CVarBool> = (0..n).map(|v| CVarBool { var: v, val: (a >> v) & 1 == 1 }).collect();
+                unsafe { eval(c, args.as_ptr(), args.len()) }
+            })
+        }
+
+        /// exact reference-count audit of the C manager against the ownership model
+        fn audit(&self, ctx: &mut Ctx, fname: &str) {
+            if !self.audits.get() {
+                return;
+            }
+            let m = unsafe { K::mgr_of(self.cm) };
+            let s = m.with_manager_exclusive(|m| audit::structural(&*m, K::rule(), &|t| K::SEM == Sem::ZeroSup && !K::term(t)));
+            let mut ext: HashMap<NodeID, usize> = HashMap::new();
+            let mut term_ids: HashSet<NodeID> = HashSet::new();
+            m.with_manager_shared(|mm| {
+                let f = K::F::f(mm);
+                let t = K::F::t(mm);
+                term_ids.insert(f.as_edge(mm).node_id());
+                let mut id = t.as_edge(mm).node_id();
+                while let Some((_, ch)) = s.node_children.get(&id) {
+                    // ZBDD tautology chain: one reference each held by the manager
+                    *ext.entry(id).or_insert(0) += 1;
+                    id = ch[0].0;
+                }
+                term_ids.insert(id);
+            });
+            ctx.count("refcount_audits", 1);
+            ctx.eval();
+            let add = |c: CFn, n: usize, what: String, ext: &mut HashMap<NodeID, usize>, ctx: &mut Ctx| {
+                let id = unsafe { K::func_of(c) }.with_manager_shared(|_, e| e.node_id());
+                if s.node_children.contains_key(&id) {
+                    *ext.entry(id).or_insert(0) += n;
+                } else if !term_ids.contains(&id) {
+                    self.viol(ctx, "handle-to-freed-node-after", fname, format!("{what} (node id {id}) is owned by the caller but its node is not stored in the manager any more"));
+                    self.audits.set(false);
+                }
+            };
+            for (i, e) in self.ents.iter().enumerate() {
+                if !e.c.p.is_null() && e.owned > 0 {
+                    add(e.c, e.owned as usize, self.hname(i), &mut ext, ctx);
+                }
+            }
+            for h in &self.pending {
+                if !h.p.is_null() {
+                    add(*h, 1, "pending result".into(), &mut ext, ctx);
+                }
+            }
+            for sb in &self.subs {
+                for h in &sb.holds {
+                    add(*h, 1, "substitution replacement".into(), &mut ext, ctx);
+                }
+            }
+            let errs = audit::refcounts(&s, &ext);
+            if let Some((clause, detail)) = errs.first() {
+                let owned: Vec<String> = (1..self.ents.len()).filter(|&i| self.ents[i].owned > 0).map(|i| format!("{}x{}", self.hname(i), self.ents[i].owned)).collect();
+                self.viol(ctx, &format!("{clause}-after"), fname, format!("{detail} ({} inexact nodes; references owned by the caller: {owned:?})", errs.len()));
+                self.audits.set(false);
+            }
+            let live = live_stores();
+            if cfg!(oxidd_verif) && live < self.base_live + 1 + self.rm.is_some() as i64 {
+                self.viol(ctx, "manager-freed-early-after", fname, format!("LIVE_STORES {live}, baseline {} + C manager + mirror", self.base_live));
+            }
+        }
+
+        /// Register the handle returned by `fname(ops…)`; `rust` computes the mirror result from the
+        /// operands' mirrors (`None` = the docs promise an invalid handle). Returns the entry index.
+        fn admit(&mut self, ctx: &mut Ctx, fname: &str, ops: &[usize], extra: &str, c: CFn, rust: impl FnOnce(&[K::F]) -> Option<K::F>) -> usize {
+            let shape = self.shape(ops);
+            self.called(ctx, fname, &shape);
+            let all_valid = ops.iter().all(|&i| self.ents[i].r.is_some());
+            let exp = if all_valid {
+                let rs: Vec<K::F> = ops.iter().map(|&i| self.ents[i].r.clone().unwrap()).collect();
+                rust(&rs)
+            } else {
+                None
+            };
+            let id = self.next_id;
+            self.next_id += 1;
+            let args: Vec<String> = ops.iter().map(|&i| self.hname(i)).collect();
+            let valid = !c.p.is_null();
+            self.logp(format!(
+                "h{id}{} = {}({}{}{extra})",
+                if valid { "" } else { "(invalid)" },
+                fq::<K>(fname),
+                args.join(", "),
+                if !args.is_empty() && !extra.is_empty() { ", " } else { "" }
+            ));
+            let mut ent = Ent { id, c, owned: valid as u32, r: None, tt: None, cube: false, pos_cube: false };
+            ctx.eval();
+            match (valid, exp) {
+                (false, None) => ctx.count("invalid_handles_returned", 1),
+                (false, Some(_)) => {
+                    if self.small {
+                        ctx.count("invalid_handles_returned", 1);
+                        ctx.count("out_of_memory_results", 1);
+                    } else {
+                        self.viol(ctx, "unexpected-invalid-result", fname, format!("operands {shape}: invalid handle although the Rust API succeeds and the capacity is ample"));
+                    }
+                }
+                (true, None) => {
+                    let clause = if all_valid { "valid-result-where-invalid-documented" } else { "invalid-operand-not-propagated" };
+                    self.viol(ctx, clause, fname, format!("operands {shape}: got a valid handle {c:?}"));
+                    // keep the books balanced: give the unexpected reference back
+                    unsafe { (K::api().unref)(c) };
+                    ent.c = INVALID;
+                    ent.owned = 0;
+                }
+                (true, Some(r)) => {
+                    let ct = self.c_table(c);
+                    let rt = interp_tt::<K>(&r);
+                    ctx.eval();
+                    if ct != rt {
+                        self.viol(ctx, "result-differs-from-rust", fname, format!("operands {shape}: C result denotes {ct}, Rust result {rt}"));
+                    }
+                    let cn = unsafe { (K::api().node_count)(c) };
+                    cover(&fq::<K>("node_count"));
+                    let rn = r.node_count();
+                    ctx.eval();
+                    if cn != rn {
+                        self.viol(ctx, "node_count-differs-from-rust", fname, format!("result {ct}: oxidd_{}_node_count {cn}, Rust {rn}", K::NAME));
+                    }
+                    ent.tt = Some(ct);
+                    ent.r = Some(r);
+                }
+            }
+            self.ents.push(ent);
+            self.audit(ctx, fname);
+            self.check_operands(ctx, fname, ops);
+            self.ents.len() - 1
+        }
+
+        /// operands are not consumed and still denote what they denoted
+        fn check_operands(&self, ctx: &mut Ctx, fname: &str, ops: &[usize]) {
+            for &i in ops {
+                if let Some(tt) = &self.ents[i].tt {
+                    if self.ents[i].owned == 0 {
+                        continue; // consumed by documented ownership transfer
+                    }
+                    ctx.eval();
+                    let now = self.c_table(self.ents[i].c);
+                    if now != *tt {
+                        self.viol(ctx, "operand-changed-by", fname, format!("{} denoted {tt}, now {now}", self.hname(i)));
+                    }
+                }
+            }
+        }
+
+        /// recompute every table from both sides (after add_vars / set_var_order) and compare
+        fn refresh_tables(&mut self, ctx: &mut Ctx, fname: &str, must_be_unchanged: bool) {
+            for i in 1..self.ents.len() {
+                let Some(r) = self.ents[i].r.clone() else { continue };
+                let ct = self.c_table(self.ents[i].c);
+                let rt = interp_tt::<K>(&r);
+                ctx.eval();
+                if ct != rt {
+                    self.viol(ctx, "handle-differs-from-rust-after", fname, format!("{}: C handle denotes {ct}, Rust mirror {rt}", self.hname(i)));
+                }
+                if must_be_unchanged && K::SEM != Sem::ZeroSup {
+                    if let Some(old) = &self.ents[i].tt {
+                        if *old != ct {
+                            self.viol(ctx, "handle-changed-function-after", fname, format!("{}: denoted {old}, now {ct}", self.hname(i)));
+                        }
+                    }
+                }
+                self.ents[i].tt = Some(ct);
+            }
+        }
+
+        // ------------------------------------------------------------------ manager-level calls
+
+        fn add_vars(&mut self, ctx: &mut Ctx, k: u32) {
+            let r = unsafe { (K::api().manager_add_vars)(self.cm, k) };
+            self.called(ctx, "manager_add_vars", &k.to_string());
+            self.logp(format!("{}(m, {k})", fq::<K>("manager_add_vars")));
+            let rr = self.rm().with_manager_exclusive(|m| m.add_vars(k));
+            ctx.eval();
+            if (r.start, r.end) != (self.nvars, self.nvars + k) || (r.start, r.end) != (rr.start, rr.end) {
+                self.viol(ctx, "result-differs-from-rust", "manager_add_vars", format!("returned {r:?}, Rust {rr:?}, expected {}..{}", self.nvars, self.nvars + k));
+            }
+            self.nvars += k;
+            for _ in 0..k {
+                self.names.push(String::new());
+            }
+            self.refresh_tables(ctx, "manager_add_vars", false);
+            self.audit(ctx, "manager_add_vars");
+        }
+
+        /// model of `add_named_vars`: (first new var, number added, present_var)
+        fn model_add_named(&mut self, names: &[String]) -> (u32, u32, u32) {
+            let start = self.names.len() as u32;
+            let mut added = 0;
+            for n in names {
+                if !n.is_empty() {
+                    if let Some(p) = self.names.iter().position(|x| x == n) {
+                        return (start, added, p as u32);
+                    }
+                }
+                self.names.push(n.clone());
+                added += 1;
+            }
+            (start, added, u32::MAX)
+        }
+
+        /// `variant`: 0 = array of C strings, 1 = iterator with size hint, 2 = iterator without,
+        /// 3 = `names == NULL` (documented: same as add_vars)
+        fn add_named_vars(&mut self, ctx: &mut Ctx, names: &[String], variant: u8) {
+            let api = K::api();
+            let cs: Vec<CString> = names.iter().map(|n| CString::new(n.as_str()).unwrap()).collect();
+            let (fname, res) = match variant {
+                0 => {
+                    // empty names are passed as NULL or "" alternately
+                    let ptrs: Vec<*const c_char> = cs.iter().enumerate().map(|(i, c)| if names[i].is_empty() && i % 2 == 0 { null() } else { c.as_ptr() }).collect();
+                    ("manager_add_named_vars", unsafe { (api.manager_add_named_vars)(self.cm, ptrs.as_ptr(), ptrs.len() as u32) })
+                }
+                3 => ("manager_add_named_vars", unsafe { (api.manager_add_named_vars)(self.cm, null(), names.len() as u32) }),
+                v => {
+                    let mut ic = IterCtx { items: names.iter().map(|n| strt(n)).collect::<Vec<CStrT>>(), pos: 0 };
+                    let it = c_iter(&mut ic, v == 1);
+                    ("manager_add_named_vars_iter", unsafe { (api.manager_add_named_vars_iter)(self.cm, it) })
+                }
+            };
+            self.called(ctx, fname, &format!("v{variant} n{}", names.len()));
+            self.logp(format!("{}(m, {:?}{})", fq::<K>(fname), names, if variant == 3 { " passed as NULL" } else { "" }));
+            let eff: Vec<String> = if variant == 3 { names.iter().map(|_| String::new()).collect() } else { names.to_vec() };
+            let (start, added, present) = self.model_add_named(&eff);
+            let rr = self.rm().with_manager_exclusive(|m| m.add_named_vars(eff.iter().cloned()));
+            let (rs, re, rp) = match &rr {
+                Ok(r) => (r.start, r.end, u32::MAX),
+                Err(e) => (e.added_vars.start, e.added_vars.end, e.present_var),
+            };
+            ctx.eval();
+            if (res.added.start, res.added.end, res.present_var) != (start, start + added, present) || (rs, re, rp) != (start, start + added, present) {
+                self.viol(ctx, "result-differs-from-rust", fname, format!("C returned {res:?}, Rust ({rs}..{re}, {rp}), model ({start}..{}, {present})", start + added));
+            }
+            self.nvars += added;
+            self.refresh_tables(ctx, fname, false);
+            self.check_names(ctx, fname);
+            self.audit(ctx, fname);
+        }
+
+        fn set_var_name(&mut self, ctx: &mut Ctx, v: u32, name: &str) {
+            let api = K::api();
+            let ptr = if name.is_empty() { null() } else { name.as_ptr().cast::<c_char>() };
+            let res = unsafe { (api.manager_set_var_name)(self.cm, v, ptr, name.len()) };
+            self.called(ctx, "manager_set_var_name", if name.is_empty() { "empty" } else { "name" });
+            self.logp(format!("{}(m, {v}, {name:?})", fq::<K>("manager_set_var_name")));
+            let other = if name.is_empty() { None } else { self.names.iter().position(|x| x == name).filter(|&p| p != v as usize) };
+            let want = match other {
+                Some(p) => p as u32,
+                None => {
+                    self.names[v as usize] = name.to_string();
+                    u32::MAX
+                }
+            };
+            let rr = self.rm().with_manager_exclusive(|m| m.set_var_name(v, name)).map_or_else(|e| e.present_var, |_| u32::MAX);
+            ctx.eval();
+            if res != want || rr != want {
+                self.viol(ctx, "result-differs-from-rust", "manager_set_var_name", format!("C returned {res}, Rust {rr}, model {want}"));
+            }
+            self.check_names(ctx, "manager_set_var_name");
+        }
+
+        /// var_name / with_var_name / name_to_var / num_named_vars against the model and the mirror
+        fn check_names(&mut self, ctx: &mut Ctx, after: &str) {
+            let api = K::api();
+            extern "C" fn grab(data: *mut c_void, p: *const c_char, len: usize) -> *mut c_void {
+                let out = unsafe { &mut *(data as *mut Option<String>) };
+                *out = Some(if len == 0 { String::new() } else { String::from_utf8_lossy(unsafe { std::slice::from_raw_parts(p.cast::<u8>(), len) }).into_owned() });
+                data
+            }
+            let nn = unsafe { (api.manager_num_named_vars)(self.cm) };
+            self.called(ctx, "manager_num_named_vars", "");
+            let want_nn = self.names.iter().filter(|n| !n.is_empty()).count() as u32;
+            let r_nn = self.rm().with_manager_shared(|m| m.num_named_vars());
+            ctx.eval();
+            if nn != want_nn || r_nn != want_nn {
+                self.viol(ctx, "result-differs-from-rust", "manager_num_named_vars", format!("after {after}: C {nn}, Rust {r_nn}, model {want_nn} (names {:?})", self.names));
+            }
+            for v in 0..self.nvars {
+                let want = self.names[v as usize].clone();
+                let mut len = usize::MAX;
+                let p = unsafe { (api.manager_var_name)(self.cm, v, if v % 2 == 0 { &mut len } else { null_mut() }) };
+                self.called(ctx, "manager_var_name", if want.is_empty() { "unnamed" } else { "named" });
+                let got = if p.is_null() { String::new() } else { unsafe { std::ffi::CStr::from_ptr(p) }.to_string_lossy().into_owned() };
+                if !p.is_null() {
+                    unsafe { free(p as *mut c_void) };
+                }
+                let mut got2: Option<String> = None;
+                let d = (&mut got2 as *mut Option<String>).cast::<c_void>();
+                let ret = unsafe { (api.manager_with_var_name)(self.cm, v, grab, d) };
+                self.called(ctx, "manager_with_var_name", if want.is_empty() { "unnamed" } else { "named" });
+                let rn = self.rm().with_manager_shared(|m| m.var_name(v).to_string());
+                ctx.eval();
+                if got != want || rn != want || (v % 2 == 0 && len != want.len()) || (want.is_empty() != p.is_null()) {
+                    self.viol(ctx, "result-differs-from-rust", "manager_var_name", format!("after {after}: var {v}: C {got:?} (len out {len}), Rust {rn:?}, model {want:?}"));
+                }
+                ctx.eval();
+                if got2.as_deref() != Some(want.as_str()) || ret != d {
+                    self.viol(ctx, "result-differs-from-rust", "manager_with_var_name", format!("after {after}: var {v}: callback got {got2:?}, model {want:?}, returned data pointer ok: {}", ret == d));
+                }
+                // name -> var
+                let probe = if want.is_empty() { format!("no-such-{v}") } else { want.clone() };
+                let nv = unsafe { (api.manager_name_to_var)(self.cm, probe.as_ptr().cast(), probe.len()) };
+                self.called(ctx, "manager_name_to_var", if want.is_empty() { "absent" } else { "present" });
+                let want_v = if want.is_empty() { u32::MAX } else { v };
+                let r_v = self.rm().with_manager_shared(|m| m.name_to_var(&probe)).unwrap_or(u32::MAX);
+                ctx.eval();
+                if nv != want_v || r_v != want_v {
+                    self.viol(ctx, "result-differs-from-rust", "manager_name_to_var", format!("after {after}: {probe:?}: C {nv}, Rust {r_v}, model {want_v}"));
+                }
+            }
+            let e = unsafe { (api.manager_name_to_var)(self.cm, null(), 0) };
+            ctx.eval();
+            if e != u32::MAX {
+                self.viol(ctx, "result-differs-from-rust", "manager_name_to_var", format!("empty name (NULL, 0) -> {e}, documented (oxidd_var_no_t) -1"));
+            }
+        }
+
+        /// num_vars, var/level maps, node counters, gc_count
+        fn mgr_queries(&mut self, ctx: &mut Ctx) {
+            let api = K::api();
+            let n = unsafe { (api.manager_num_vars)(self.cm) };
+            self.called(ctx, "manager_num_vars", "");
+            let rn = self.rm().with_manager_shared(|m| m.num_vars());
+            ctx.eval();
+            if n != self.nvars || rn != n {
+                self.viol(ctx, "result-differs-from-rust", "manager_num_vars", format!("C {n}, Rust {rn}, model {}", self.nvars));
+                return;
+            }
+            let mut seen = vec![false; n as usize];
+            for v in 0..n {
+                let l = unsafe { (api.manager_var_to_level)(self.cm, v) };
+                self.called(ctx, "manager_var_to_level", "");
+                let rl = self.rm().with_manager_shared(|m| m.var_to_level(v));
+                ctx.eval();
+                if l != rl || l >= n || seen[l as usize] {
+                    self.viol(ctx, "result-differs-from-rust", "manager_var_to_level", format!("var {v}: C level {l}, Rust {rl} (num_vars {n})"));
+                    continue;
+                }
+                seen[l as usize] = true;
+                let back = unsafe { (api.manager_level_to_var)(self.cm, l) };
+                self.called(ctx, "manager_level_to_var", "");
+                ctx.eval();
+                if back != v {
+                    self.viol(ctx, "result-differs-from-rust", "manager_level_to_var", format!("level {l} -> var {back}, but var {v} -> level {l}"));
+                }
+                if self.identity_order && l != v {
+                    self.viol(ctx, "result-differs-from-rust", "manager_var_to_level", format!("no reordering yet, var {v} at level {l}"));
+                }
+            }
+            let exact = unsafe { (api.manager_num_inner_nodes)(self.cm) };
+            self.called(ctx, "manager_num_inner_nodes", "");
+            let approx = unsafe { (api.manager_approx_num_inner_nodes)(self.cm) };
+            self.called(ctx, "manager_approx_num_inner_nodes", "");
+            let m = unsafe { K::mgr_of(self.cm) };
+            let direct = m.with_manager_exclusive(|m| m.num_inner_nodes());
+            ctx.eval();
+            if !self.small && (exact != direct || approx > exact + 4096) {
+                self.viol(ctx, "result-differs-from-rust", "manager_num_inner_nodes", format!("C {exact} (approx {approx}), Rust view of the same manager {direct}"));
+            }
+            let gc = unsafe { (api.manager_gc_count)(self.cm) };
+            self.called(ctx, "manager_gc_count", "");
+            let rgc = self.rm().with_manager_shared(|m| m.gc_count());
+            ctx.eval();
+            if !self.small && gc != rgc {
+                self.viol(ctx, "result-differs-from-rust", "manager_gc_count", format!("C {gc}, Rust mirror after the same calls {rgc}"));
+            }
+        }
+
+        /// explicit collection on both sides; afterwards both managers hold the same number of nodes
+        fn gc(&mut self, ctx: &mut Ctx) {
+            let api = K::api();
+            let before = unsafe { (api.manager_num_inner_nodes)(self.cm) };
+            let freed = unsafe { (api.manager_gc)(self.cm) };
+            self.called(ctx, "manager_gc", "");
+            self.logp(format!("{}(m)", fq::<K>("manager_gc")));
+            self.explicit_gcs += 1;
+            let after = unsafe { (api.manager_num_inner_nodes)(self.cm) };
+            self.rm().with_manager_shared(|m| m.gc());
+            let rafter = self.rm().with_manager_shared(|m| m.num_inner_nodes());
+            ctx.eval();
+            if !self.small {
+                // same live functions on both sides => same reduced diagrams => same node count
+                let all_mirrored = self.ents.iter().all(|e| e.c.p.is_null() == e.r.is_none());
+                let clean = self.audits.get(); // after an ownership violation the node counts are off by construction
+                if before < after || freed != before - after || (clean && all_mirrored && after != rafter) {
+                    self.viol(ctx, "result-differs-from-rust", "manager_gc", format!("gc returned {freed}; nodes before {before}, after {after}; Rust mirror after gc {rafter}"));
+                }
+            }
+            self.audit(ctx, "manager_gc");
+            self.refresh_tables(ctx, "manager_gc", true);
+        }
+
+        fn set_var_order(&mut self, ctx: &mut Ctx, order: &[u32]) {
+            let api = K::api();
+            unsafe { (api.manager_set_var_order)(self.cm, if order.is_empty() { null() } else { order.as_ptr() }, order.len()) };
+            self.called(ctx, "manager_set_var_order", &format!("{} of {}", order.len(), self.nvars));
+            self.logp(format!("{}(m, {order:?})", fq::<K>("manager_set_var_order")));
+            if order.len() >= 2 {
+                // documented: no-op for len < 2
+                set_order(self.rm(), order);
+                self.identity_order = false;
+            }
+            // documented: x before y in `order` => x above y
+            let lv: Vec<u32> = order.iter().map(|&v| unsafe { (api.manager_var_to_level)(self.cm, v) }).collect();
+            ctx.eval();
+            if order.len() >= 2 && !lv.windows(2).all(|w| w[0] < w[1]) {
+                self.viol(ctx, "order-not-established", "manager_set_var_order", format!("levels of {order:?} afterwards: {lv:?}"));
+            }
+            self.mgr_queries(ctx);
+            self.refresh_tables(ctx, "manager_set_var_order", true);
+            self.audit(ctx, "manager_set_var_order");
+        }
+
+        // ------------------------------------------------------------------ function-level calls
+
+        fn c(&self, i: usize) -> CFn {
+            self.ents[i].c
+        }
+
+        /// constructors taking the manager: 0 var, 1 not_var, 2 false, 3 true
+        fn leaf(&mut self, ctx: &mut Ctx, which: u8, v: u32) -> usize {
+            let api = K::api();
+            let rm = self.rm().clone();
+            match which {
+                0 => {
+                    let c = unsafe { (api.var)(self.cm, v) };
+                    let i = self.admit(ctx, "var", &[], &format!("m, {v}"), c, |_| Some(rm.with_manager_shared(|m| K::F::var(m, v)).unwrap()));
+                    self.ents[i].cube = true;
+                    self.ents[i].pos_cube = true;
+                    i
+                }
+                1 => {
+                    let c = unsafe { (api.not_var)(self.cm, v) };
+                    let i = self.admit(ctx, "not_var", &[], &format!("m, {v}"), c, |_| Some(rm.with_manager_shared(|m| K::F::not_var(m, v)).unwrap()));
+                    self.ents[i].cube = true;
+                    i
+                }
+                2 => {
+                    let c = unsafe { (api.false_)(self.cm) };
+                    self.admit(ctx, "false", &[], "m", c, |_| Some(rm.with_manager_shared(|m| K::F::f(m))))
+                }
+                _ => {
+                    let c = unsafe { (api.true_)(self.cm) };
+                    let i = self.admit(ctx, "true", &[], "m", c, |_| Some(rm.with_manager_shared(|m| K::F::t(m))));
+                    self.ents[i].cube = true;
+                    self.ents[i].pos_cube = true;
+                    i
+                }
+            }
+        }
+
+        fn not(&mut self, ctx: &mut Ctx, a: usize) -> usize {
+            let c = unsafe { (K::api().not)(self.c(a)) };
+            self.admit(ctx, "not", &[a], "", c, |r| Some(r[0].not().unwrap()))
+        }
+
+        fn bin(&mut self, ctx: &mut Ctx, op: BOp, a: usize, b: usize) -> usize {
+            let api = K::api();
+            let f = match op {
+                BOp::And => api.and,
+                BOp::Or => api.or,
+                BOp::Xor => api.xor,
+                BOp::Equiv => api.equiv,
+                BOp::Nand => api.nand,
+                BOp::Nor => api.nor,
+                BOp::Imp => api.imp,
+                BOp::ImpStrict => api.imp_strict,
+            };
+            let c = unsafe { f(self.c(a), self.c(b)) };
+            let i = self.admit(ctx, op.name(), &[a, b], "", c, |r| Some(crate::mon::c02::apply_bop(op, &r[0], &r[1])));
+            if op == BOp::And && self.ents[i].r.is_some() {
+                self.ents[i].cube = self.ents[a].cube && self.ents[b].cube;
+                self.ents[i].pos_cube = self.ents[a].pos_cube && self.ents[b].pos_cube;
+            }
+            i
+        }
+
+        fn ite(&mut self, ctx: &mut Ctx, a: usize, b: usize, c3: usize) -> usize {
+            let c = unsafe { (K::api().ite)(self.c(a), self.c(b), self.c(c3)) };
+            self.admit(ctx, "ite", &[a, b, c3], "", c, |r| Some(r[0].ite(&r[1], &r[2]).unwrap()))
+        }
+
+        /// which: 0 cofactors (pair), 1 cofactor_true, 2 cofactor_false
+        fn cofactor(&mut self, ctx: &mut Ctx, which: u8, a: usize) {
+            let api = K::api();
+            match which {
+                0 => {
+                    let p = unsafe { (api.cofactors)(self.c(a)) };
+                    ctx.eval();
+                    if p.first.p.is_null() != p.second.p.is_null() {
+                        self.viol(ctx, "half-valid-pair", "cofactors", format!("{:?} / {:?}", p.first, p.second));
+                    }
+                    self.pending = vec![p.second];
+                    self.admit(ctx, "cofactors", &[a], ".first", p.first, |r| r[0].cofactors().map(|x| x.0));
+                    self.pending.clear();
+                    self.admit(ctx, "cofactors", &[a], ".second", p.second, |r| r[0].cofactors().map(|x| x.1));
+                }
+                1 => {
+                    let c = unsafe { (api.cofactor_true)(self.c(a)) };
+                    self.admit(ctx, "cofactor_true", &[a], "", c, |r| r[0].cofactor_true());
+                }
+                _ => {
+                    let c = unsafe { (api.cofactor_false)(self.c(a)) };
+                    self.admit(ctx, "cofactor_false", &[a], "", c, |r| r[0].cofactor_false());
+                }
+            }
+            // node_level / node_var (documented: -1 for terminals and invalid functions)
+            let lvl = unsafe { (api.node_level)(self.c(a)) };
+            self.called(ctx, "node_level", &self.shape(&[a]));
+            let var = unsafe { (api.node_var)(self.c(a)) };
+            self.called(ctx, "node_var", &self.shape(&[a]));
+            let (wl, wv) = match &self.ents[a].r {
+                None => (u32::MAX, u32::MAX),
+                Some(f) => f.with_manager_shared(|m, e| match m.get_node(e) {
+                    Node::Inner(n) => (n.level(), m.level_to_var(n.level())),
+                    Node::Terminal(_) => (u32::MAX, u32::MAX),
+                }),
+            };
+            ctx.eval();
+            if lvl != wl {
+                self.viol(ctx, if self.ents[a].r.is_none() { "invalid-operand-not-propagated" } else { "result-differs-from-rust" }, "node_level", format!("{}: C {lvl}, Rust {wl}", self.hname(a)));
+            }
+            ctx.eval();
+            if var != wv {
+                self.viol(ctx, if self.ents[a].r.is_none() { "invalid-operand-not-propagated" } else { "result-differs-from-rust" }, "node_var", format!("{}: C {var}, Rust {wv}", self.hname(a)));
+            }
+        }
+
+        /// read-only queries on a *valid* function
+        fn queries(&mut self, ctx: &mut Ctx, a: usize, rng: &mut Rng) {
+            let api = K::api();
+            let Some(r) = self.ents[a].r.clone() else { return };
+            let c = self.c(a);
+            let tt = self.ents[a].tt.clone().unwrap();
+            let n = self.nvars;
+            let shape = self.shape(&[a]);
+            self.logp(format!("queries({})", self.hname(a)));
+            // node_count
+            let cn = unsafe { (api.node_count)(c) };
+            self.called(ctx, "node_count", &shape);
+            ctx.eval();
+            if cn != r.node_count() {
+                self.viol(ctx, "result-differs-from-rust", "node_count", format!("{tt}: C {cn}, Rust {}", r.node_count()));
+            }
+            // satisfiable / valid
+            let (cs, cv) = unsafe { ((api.satisfiable)(c), (api.valid)(c)) };
+            self.called(ctx, "satisfiable", &shape);
+            self.called(ctx, "valid", &shape);
+            ctx.eval();
+            if cs != !tt.is_zero() || cs != r.satisfiable() {
+                self.viol(ctx, "result-differs-from-rust", "satisfiable", format!("{tt}: C {cs}, Rust {}", r.satisfiable()));
+            }
+            ctx.eval();
+            if cv != tt.is_one() || cv != r.valid() {
+                self.viol(ctx, "result-differs-from-rust", "valid", format!("{tt}: C {cv}, Rust {}", r.valid()));
+            }
+            // sat_count (exact and double); BDD/BCDD also with a larger domain
+            let extra = if K::SEM == Sem::ZeroSup { 0 } else { rng.below(3) as u32 * 7 };
+            let vars = n + extra;
+            let want = (tt.count_ones() as u128) << extra;
+            let nat = unsafe { (api.sat_count)(c, vars) };
+            self.called(ctx, "sat_count", &shape);
+            let dbl = unsafe { (api.sat_count_double)(c, vars) };
+            self.called(ctx, "sat_count_double", &shape);
+            type H = std::hash::BuildHasherDefault<oxidd::util::FxHasher>;
+            let rnat = r.sat_count::<oxidd::util::num::Natural, H>(vars, &mut Default::default());
+            let rdbl = r.sat_count::<oxidd::util::num::F64, H>(vars, &mut Default::default()).0;
+            let s = unsafe { oxidd_natural_to_string(&nat) };
+            cover("oxidd_natural_to_string");
+            let text = unsafe { string_of(&s) };
+            ctx.eval();
+            if nat_small(&nat) != Some(want) || text != want.to_string() || text != rnat.to_string() {
+                self.viol(ctx, "result-differs-from-rust", "sat_count", format!("{tt} over {vars} variables: C {text} (raw len {} shl {}), Rust {rnat}, table {want}", nat.len, nat.shl));
+            }
+            ctx.eval();
+            if dbl != want as f64 || dbl != rdbl {
+                self.viol(ctx, "result-differs-from-rust", "sat_count_double", format!("{tt} over {vars} variables: C {dbl}, Rust {rdbl}, table {want}"));
+            }
+            // natural / string utilities
+            let nat2 = unsafe { oxidd_natural_clone(&nat) };
+            cover("oxidd_natural_clone");
+            let (eq, cmp) = unsafe { (oxidd_natural_eq(&nat, &nat2), oxidd_natural_cmp(&nat, &nat2)) };
+            cover("oxidd_natural_eq");
+            cover("oxidd_natural_cmp");
+            let s2 = unsafe { oxidd_string_clone(&s) };
+            cover("oxidd_string_clone");
+            ctx.eval();
+            if !eq || cmp != 0 || unsafe { string_of(&s2) } != text {
+                ctx.violation("ffi:natural-utils", format!("clone of {text}: eq {eq}, cmp {cmp}, string clone {:?}", unsafe { string_of(&s2) }));
+            }
+            unsafe {
+                oxidd_string_free(s2);
+                oxidd_string_free(s);
+                oxidd_natural_free(nat2);
+                oxidd_natural_free(nat);
+            }
+            cover("oxidd_string_free");
+            cover("oxidd_natural_free");
+            // pick_cube (same choice function on both sides: always `false`)
+            let asg = unsafe { (api.pick_cube)(c) };
+            self.called(ctx, "pick_cube", &shape);
+            let got: Option<Vec<i8>> = if asg.data.is_null() { None } else { Some(unsafe { std::slice::from_raw_parts(asg.data, asg.len) }.to_vec()) };
+            let rc = r.pick_cube(|_, _, _| false).map(|v| v.iter().map(|o| match o { OptBool::None => -1i8, OptBool::False => 0, OptBool::True => 1 }).collect::<Vec<i8>>());
+            ctx.eval();
+            if got != rc || (got.is_none() && asg.len != 0) {
+                self.viol(ctx, "result-differs-from-rust", "pick_cube", format!("{tt}: C {got:?} (len {}), Rust {rc:?}", asg.len));
+            } else if let Some(cube) = &got {
+                let lits: Vec<(u32, bool)> = cube.iter().enumerate().filter(|(_, x)| **x >= 0).map(|(v, x)| (v as u32, *x == 1)).collect();
+                ctx.eval();
+                if cube.len() != n as usize || !Tt::cube(n, &lits).implies(&tt) {
+                    self.viol(ctx, "result-not-an-implicant", "pick_cube", format!("{tt}: {cube:?}"));
+                }
+            }
+            unsafe { oxidd_assignment_free(asg) };
+            cover("oxidd_assignment_free");
+            // eval with shuffled, duplicated arguments (documented: the last value counts)
+            let a_ = rng.usize(1usize << n);
+            let mut args: Vec<CVarBool> = Vec::new();
+            let mut order = rng.perm(n as usize);
+            for &v in &order {
+                args.push(CVarBool { var: v, val: rng.bool() });
+            }
+            rng.shuffle(&mut order);
+            for &v in &order {
+                args.push(CVarBool { var: v, val: (a_ >> v) & 1 == 1 });
+            }
+            let ev = unsafe { (api.eval)(c, args.as_ptr(), args.len()) };
+            self.called(ctx, "eval", "dup-args");
+            ctx.eval();
+            if ev != tt.get(a_) {
+                self.viol(ctx, "result-differs-from-rust", "eval", format!("{tt} at assignment {a_:#b} with overridden duplicates: {ev}"));
+            }
+            // no arguments at all: every variable is false
+            let ev0 = unsafe { (api.eval)(c, null(), 0) };
+            self.called(ctx, "eval", "no-args");
+            ctx.eval();
+            if ev0 != tt.get(0) {
+                // documented (C and Rust): "Should there be a decision node for a variable not part of the domain,
+                // then `false` is used as the decision value"
+                let rs = r.eval(std::iter::empty());
+                self.viol(ctx, "unassigned-variable-not-false", "eval", format!("{tt} with args == NULL, num_args == 0: C {ev0}, Rust eval([]) {rs}, value at the all-false assignment {}", tt.get(0)));
+            }
+            self.check_operands(ctx, "queries", &[a]);
+            self.audit(ctx, "queries");
+        }
+
+        fn pick_cube_dd(&mut self, ctx: &mut Ctx, a: usize, set: Option<usize>) -> usize {
+            let api = K::api();
+            match set {
+                None => {
+                    let c = unsafe { (api.pick_cube_dd)(self.c(a)) };
+                    self.admit(ctx, "pick_cube_dd", &[a], "", c, |r| Some(r[0].pick_cube_dd(|_, _, _| false).unwrap()))
+                }
+                Some(s) => {
+                    let c = unsafe { (api.pick_cube_dd_set)(self.c(a), self.c(s)) };
+                    self.admit(ctx, "pick_cube_dd_set", &[a, s], "", c, |r| Some(r[0].pick_cube_dd_set(&r[1]).unwrap()))
+                }
+            }
+        }
+
+        fn ref_(&mut self, ctx: &mut Ctx, a: usize) {
+            let c = self.c(a);
+            let r = unsafe { (K::api().ref_)(c) };
+            self.called(ctx, "ref", &self.shape(&[a]));
+            self.logp(format!("{}({})", fq::<K>("ref"), self.hname(a)));
+            ctx.eval();
+            if r != c {
+                self.viol(ctx, "returns-other-handle", "ref", format!("{c:?} -> {r:?} (documented: returns f)"));
+            }
+            if !c.p.is_null() {
+                self.ents[a].owned += 1;
+            }
+            self.audit(ctx, "ref");
+        }
+
+        /// returns true if the entry is gone
+        fn unref(&mut self, ctx: &mut Ctx, a: usize) -> bool {
+            let c = self.c(a);
+            self.logp(format!("{}({})", fq::<K>("unref"), self.hname(a)));
+            unsafe { (K::api().unref)(c) };
+            self.called(ctx, "unref", &self.shape(&[a]));
+            if c.p.is_null() {
+                // documented no-op
+                self.audit(ctx, "unref");
+                if a != 0 {
+                    self.ents.remove(a);
+                    return true;
+                }
+                return false;
+            }
+            self.ents[a].owned -= 1;
+            let gone = self.ents[a].owned == 0;
+            if gone {
+                self.ents.remove(a);
+            }
+            self.audit(ctx, "unref");
+            gone
+        }
+
+        /// which: 0 containing_manager (needs valid `a`), 1 manager_ref, 2 manager_unref (keeps >= 1)
+        fn mgr_ref_ops(&mut self, ctx: &mut Ctx, which: u8, a: usize) {
+            let api = K::api();
+            match which {
+                0 => {
+                    if self.ents[a].r.is_none() {
+                        return; // documented precondition: valid function
+                    }
+                    let m = unsafe { (api.containing_manager)(self.c(a)) };
+                    self.called(ctx, "containing_manager", &self.shape(&[a]));
+                    self.logp(format!("m = {}({})", fq::<K>("containing_manager"), self.hname(a)));
+                    ctx.eval();
+                    if m != self.cm {
+                        self.viol(ctx, "returns-other-manager", "containing_manager", format!("{m:?} vs {:?}", self.cm));
+                    }
+                    self.mgr_refs += 1;
+                }
+                1 => {
+                    let m = unsafe { (api.manager_ref)(self.cm) };
+                    self.called(ctx, "manager_ref", "");
+                    self.logp(format!("{}(m)", fq::<K>("manager_ref")));
+                    ctx.eval();
+                    if m != self.cm {
+                        self.viol(ctx, "returns-other-manager", "manager_ref", format!("{m:?} vs {:?}", self.cm));
+                    }
+                    self.mgr_refs += 1;
+                }
+                _ => {
+                    if self.mgr_refs < 2 {
+                        return;
+                    }
+                    unsafe { (api.manager_unref)(self.cm) };
+                    self.called(ctx, "manager_unref", "");
+                    self.logp(format!("{}(m)", fq::<K>("manager_unref")));
+                    self.mgr_refs -= 1;
+                }
+            }
+            self.audit(ctx, "manager_ref/unref");
+        }
+
+        /// `and`/`or`… executed inside the manager's worker pool
+        fn run_in_pool(&mut self, ctx: &mut Ctx, a: usize, b: usize) -> usize {
+            struct Data {
+                f: unsafe extern "C" fn(CFn, CFn) -> CFn,
+                a: CFn,
+                b: CFn,
+                out: CFn,
+                ran: bool,
+            }
+            extern "C" fn cb(d: *mut c_void) -> *mut c_void {
+                let d2 = unsafe { &mut *(d as *mut Data) };
+                d2.out = unsafe { (d2.f)(d2.a, d2.b) };
+                d2.ran = true;
+                d
+            }
+            let api = K::api();
+            let mut d = Data { f: api.xor, a: self.c(a), b: self.c(b), out: INVALID, ran: false };
+            let p = (&mut d as *mut Data).cast::<c_void>();
+            let ret = unsafe { (api.manager_run_in_worker_pool)(self.cm, cb, p) };
+            self.called(ctx, "manager_run_in_worker_pool", "");
+            ctx.eval();
+            if ret != p || !d.ran {
+                self.viol(ctx, "callback-result-lost", "manager_run_in_worker_pool", format!("returned {ret:?}, data {p:?}, callback ran: {}", d.ran));
+            }
+            self.admit(ctx, "xor", &[a, b], " [inside oxidd_*_manager_run_in_worker_pool]", d.out, |r| Some(r[0].xor(&r[1]).unwrap()))
+        }
+
+        /// conjunction of literals built through the C API (intermediate handles are released)
+        fn build_cube(&mut self, ctx: &mut Ctx, lits: &[(u32, bool)]) -> usize {
+            let mut acc = self.leaf(ctx, 3, 0);
+            for &(v, pos) in lits {
+                let l = self.leaf(ctx, if pos { 0 } else { 1 }, v);
+                let n = self.bin(ctx, BOp::And, acc, l);
+                // n > l > acc: remove the higher index first
+                self.unref(ctx, l);
+                self.unref(ctx, acc);
+                acc = n - 2;
+            }
+            acc
+        }
+
+        // ------------------------------------------------------------------ BDD / BCDD only
+
+        fn restrict(&mut self, ctx: &mut Ctx, a: usize, vars: usize) -> usize {
+            let q = K::qapi().unwrap();
+            let c = unsafe { (q.restrict)(self.c(a), self.c(vars)) };
+            self.admit(ctx, "restrict", &[a, vars], "", c, |r| Some(r[0].restrict(&r[1]).unwrap()))
+        }
+
+        fn quant(&mut self, ctx: &mut Ctx, qt: Quant, a: usize, vars: usize) -> usize {
+            let q = K::qapi().unwrap();
+            let (name, f) = match qt {
+                Quant::Forall => ("forall", q.forall),
+                Quant::Exists => ("exists", q.exists),
+                Quant::Unique => ("unique", q.unique),
+            };
+            let c = unsafe { f(self.c(a), self.c(vars)) };
+            self.admit(ctx, name, &[a, vars], "", c, |r| Some(K::quant(qt, &r[0], &r[1]).unwrap()))
+        }
+
+        fn apply_quant(&mut self, ctx: &mut Ctx, qt: Quant, op: BOp, a: usize, b: usize, vars: usize) -> usize {
+            let q = K::qapi().unwrap();
+            let (name, f) = match qt {
+                Quant::Forall => ("apply_forall", q.apply_forall),
+                Quant::Exists => ("apply_exists", q.apply_exists),
+                Quant::Unique => ("apply_unique", q.apply_unique),
+            };
+            let c = unsafe { f(op.to_oxidd() as u8, self.c(a), self.c(b), self.c(vars)) };
+            self.admit(ctx, name, &[a, b, vars], &format!("op={}", op.name()), c, |r| Some(K::apply_quant(qt, op, &r[0], &r[1], &r[2]).unwrap()))
+        }
+
+        /// substitution_new + add_pair* (+ substitute once or twice) + free; `null`: pass NULL instead
+        fn substitute(&mut self, ctx: &mut Ctx, a: usize, pairs: &[(u32, usize)], null_subst: bool, keep: bool) {
+            let q = K::qapi().unwrap();
+            if null_subst {
+                let c = unsafe { (q.substitute)(self.c(a), null()) };
+                // documented in the code path: NULL substitution -> invalid
+                self.admit(ctx, "substitute", &[a], "NULL", c, |_| None);
+                return;
+            }
+            let s = unsafe { (q.substitution_new)(pairs.len()) };
+            self.called(ctx, "substitution_new", "");
+            self.logp(format!("s = {}({})", fq::<K>("substitution_new"), pairs.len()));
+            let mut sb = SubSt::<K> { c: s, vars: vec![], holds: vec![], repl: vec![], used: false };
+            for &(v, i) in pairs {
+                let Some(r) = self.ents[i].r.clone() else { continue }; // documented: replacement must be valid
+                unsafe { (q.substitution_add_pair)(s, v, self.c(i)) };
+                self.called(ctx, "substitution_add_pair", &self.shape(&[i]));
+                self.logp(format!("{}(s, {v}, {})", fq::<K>("substitution_add_pair"), self.hname(i)));
+                sb.vars.push(v);
+                sb.holds.push(self.c(i));
+                sb.repl.push(r);
+            }
+            self.subs.push(sb);
+            self.audit(ctx, "substitution_add_pair");
+            let ops: Vec<usize> = std::iter::once(a).chain(pairs.iter().map(|p| p.1)).collect();
+            self.check_operands(ctx, "substitution_add_pair", &ops);
+            let si = self.subs.len() - 1;
+            let subst = Subst::new(self.subs[si].vars.clone(), self.subs[si].repl.clone());
+            for _ in 0..(1 + keep as usize) {
+                let c = unsafe { (q.substitute)(self.c(a), self.subs[si].c) };
+                let desc = format!("s={:?}", self.subs[si].vars);
+                self.admit(ctx, "substitute", &[a], &desc, c, |r| Some(K::substitute(&r[0], &subst).unwrap()));
+            }
+            if !keep {
+                self.free_subst(ctx, si);
+            }
+        }
+
+        fn free_subst(&mut self, ctx: &mut Ctx, si: usize) {
+            let q = K::qapi().unwrap();
+            let sb = self.subs.remove(si);
+            unsafe { (q.substitution_free)(sb.c) };
+            self.called(ctx, "substitution_free", "");
+            self.logp(format!("{}(s)", fq::<K>("substitution_free")));
+            drop(sb);
+            self.audit(ctx, "substitution_free");
+        }
+
+        // ------------------------------------------------------------------ ZBDD only
+
+        fn z_leaf(&mut self, ctx: &mut Ctx, op: ZOp, v: u32) -> usize {
+            let z = K::zapi().unwrap();
+            let rm = self.rm().clone();
+            let (name, c) = match op {
+                ZOp::Singleton => ("singleton", unsafe { (z.singleton)(self.cm, v) }),
+                ZOp::Empty => ("empty", unsafe { (z.empty)(self.cm) }),
+                _ => ("base", unsafe { (z.base)(self.cm) }),
+            };
+            self.admit(ctx, name, &[], &format!("m, {v}"), c, |_| Some(K::z_mirror(op, &rm, &[], v)))
+        }
+
+        fn z_var_op(&mut self, ctx: &mut Ctx, op: ZOp, a: usize, v: u32) -> usize {
+            let z = K::zapi().unwrap();
+            let rm = self.rm().clone();
+            let (name, f) = match op {
+                ZOp::Subset0 => ("subset0", z.subset0),
+                ZOp::Subset1 => ("subset1", z.subset1),
+                _ => ("change", z.change),
+            };
+            let c = unsafe { f(self.c(a), v) };
+            self.admit(ctx, name, &[a], &format!("{v}"), c, |r| Some(K::z_mirror(op, &rm, r, v)))
+        }
+
+        fn z_bin(&mut self, ctx: &mut Ctx, op: ZOp, a: usize, b: usize) -> usize {
+            let z = K::zapi().unwrap();
+            let rm = self.rm().clone();
+            let (name, f) = match op {
+                ZOp::Union => ("union", z.union_),
+                ZOp::Intsec => ("intsec", z.intsec),
+                _ => ("diff", z.diff),
+            };
+            let c = unsafe { f(self.c(a), self.c(b)) };
+            self.admit(ctx, name, &[a, b], "", c, |r| Some(K::z_mirror(op, &rm, r, 0)))
+        }
+
+        /// `make_node(var, hi, lo)`: documented to take ownership of `hi` and `lo` (not of `var`).
+        /// `hi`/`lo` must be owned often enough by the caller (one reference each is given away).
+        fn z_make_node(&mut self, ctx: &mut Ctx, var: usize, hi: usize, lo: usize) -> usize {
+            let z = K::zapi().unwrap();
+            let rm = self.rm().clone();
+            let c = unsafe { (z.make_node)(self.c(var), self.c(hi), self.c(lo)) };
+            if self.ents[var].r.is_none() || self.ents[hi].r.is_none() || self.ents[lo].r.is_none() {
+                self.suspect.get_or_insert_with(|| "make_node-with-invalid-operand".into());
+            }
+            // ownership transfer first, so that the audit inside `admit` sees the documented state
+            for i in [hi, lo] {
+                if self.ents[i].owned > 0 {
+                    self.ents[i].owned -= 1;
+                }
+            }
+            let i = self.admit(ctx, "make_node", &[var, hi, lo], "", c, |r| Some(K::z_mirror(ZOp::MakeNode, &rm, r, 0)));
+            // entries whose last reference was given away disappear (higher index first)
+            let mut dead: Vec<usize> = [hi, lo].into_iter().filter(|&j| j != 0 && !self.ents[j].c.p.is_null() && self.ents[j].owned == 0).collect();
+            dead.sort_unstable();
+            dead.dedup();
+            let mut res = i;
+            for j in dead.into_iter().rev() {
+                self.ents.remove(j);
+                if j < res {
+                    res -= 1;
+                }
+            }
+            res
+        }
+
+        // ------------------------------------------------------------------ files
+
+        fn path(&mut self, ext: &str) -> (PathBuf, String) {
+            self.file_no += 1;
+            let p = self.dir.join(format!("{}-{}.{ext}", K::NAME, self.file_no));
+            let s = p.to_string_lossy().into_owned();
+            (p, s)
+        }
+
+        /// DDDMP export through one of the three C entry points, then import through oxidd_dump (Rust)
+        /// into the mirror manager and through the C import functions into the C manager.
+        /// `variant`: 0 array, 1 array + names, 2 iterator, 3 iterator with names.
+        fn dddmp_roundtrip(&mut self, ctx: &mut Ctx, which: &[usize], variant: u8, settings: Option<(u8, bool)>) {
+            let api = K::api();
+            let (path, ps) = self.path("dddmp");
+            let fns: Vec<CFn> = which.iter().map(|&i| self.c(i)).collect();
+            let all_valid = which.iter().all(|&i| self.ents[i].r.is_some());
+            let names: Vec<String> = (0..which.len()).map(|i| format!("fn{i}")).collect();
+            let cnames: Vec<CString> = names.iter().map(|n| CString::new(n.as_str()).unwrap()).collect();
+            let name_ptrs: Vec<*const c_char> = cnames.iter().map(|c| c.as_ptr()).collect();
+            let dname = "c19 diagram";
+            let set = settings.map(|(version, ascii)| CDddmpSettings { version, ascii, strict: false, diagram_name: strt(dname) });
+            let setp = set.as_ref().map_or(null(), |s| s as *const CDddmpSettings);
+            let mut err = poison_err();
+            let (fname, ok) = match variant {
+                0 | 1 => (
+                    "manager_export_dddmp",
+                    unsafe { (api.manager_export_dddmp)(self.cm, ps.as_ptr().cast(), ps.len(), fns.as_ptr(), fns.len(), if variant == 1 { name_ptrs.as_ptr() } else { null() }, setp, &mut err) },
+                ),
+                2 => {
+                    let mut ic = IterCtx { items: fns.clone(), pos: 0 };
+                    let it = c_iter(&mut ic, true);
+                    ("manager_export_dddmp_iter", unsafe { (api.manager_export_dddmp_iter)(self.cm, ps.as_ptr().cast(), ps.len(), it, setp, &mut err) })
+                }
+                _ => {
+                    let mut ic = IterCtx { items: fns.iter().zip(&names).map(|(f, n)| CNamed { func: *f, name: strt(n) }).collect::<Vec<_>>(), pos: 0 };
+                    let it = c_iter(&mut ic, false);
+                    ("manager_export_dddmp_with_names_iter", unsafe { (api.manager_export_dddmp_with_names_iter)(self.cm, ps.as_ptr().cast(), ps.len(), it, setp, &mut err) })
+                }
+            };
+            self.called(ctx, fname, &format!("{} settings {settings:?}", self.shape(which)));
+            let hs: Vec<String> = which.iter().map(|&i| self.hname(i)).collect();
+            self.logp(format!("{}(m, path, [{}], settings {settings:?}) -> {ok}", fq::<K>(fname), hs.join(", ")));
+            let (init, msg) = unsafe { take_err(err) };
+            ctx.eval();
+            if !init {
+                self.viol(ctx, "error-not-initialized-by", fname, format!("returned {ok}"));
+            }
+            self.audit(ctx, fname);
+            self.check_operands(ctx, fname, which);
+            if !all_valid {
+                // an invalid function cannot be exported; the docs only promise `false` "upon an error"
+                if ok {
+                    ctx.count("export_with_invalid_function_returned_true", 1);
+                }
+            } else {
+                // the Rust API (same settings; NULL = defaults, i.e. strict mode) succeeds / fails alike and
+                // writes the same header for the mirror (same variables, names, order, functions)
+                let want: Vec<K::F> = which.iter().map(|&i| self.ents[i].r.clone().unwrap()).collect();
+                let rb = K::export_bytes(self.rm(), &want, if variant == 1 || variant == 3 { Some(&names[..]) } else { None }, settings.map(|(v, a)| (v, a, dname)));
+                let cb = std::fs::read(&path).unwrap_or_default();
+                ctx.eval();
+                match rb {
+                    Err(e) => {
+                        if ok || msg.is_empty() {
+                            self.viol(ctx, "error-not-reported-by", fname, format!("returned {ok} with message {msg:?}; the Rust API fails with: {e}"));
+                        } else {
+                            ctx.count("export_errors_matching_rust", 1);
+                        }
+                    }
+                    Ok(rb) => {
+                        if !ok {
+                            self.viol(ctx, "export-failed", fname, format!("error: {msg}; the Rust API succeeds"));
+                        }
+                        // node numbers inside a level follow the managers' internal ids: compare the header
+                        // (format version, mode, names, variable and root counts, support, order) only
+                        let head = |b: &[u8]| -> Vec<String> {
+                            let t = String::from_utf8_lossy(b).into_owned();
+                            t.lines().take_while(|l| !l.starts_with(".nodes")).filter(|l| !l.starts_with(".rootids")).map(String::from).collect()
+                        };
+                        if ok && head(&rb) != head(&cb) {
+                            let show = |b: &[u8]| String::from_utf8_lossy(&b[..b.len().min(400)]).replace('\n', "\\n");
+                            self.viol(ctx, "exported-file-differs-from-rust", fname, format!("C wrote {} bytes: {} | Rust API writes {} bytes: {}", cb.len(), show(&cb), rb.len(), show(&rb)));
+                        }
+                    }
+                }
+            }
+            if ok && all_valid && self.identity_order {
+                // (a) oxidd_dump on the Rust side
+                match K::import_file(self.rm(), &path) {
+                    Err(e) => self.viol(ctx, "exported-file-not-importable", fname, e),
+                    Ok((fs, info)) => {
+                        ctx.eval();
+                        let want: Vec<K::F> = which.iter().map(|&i| self.ents[i].r.clone().unwrap()).collect();
+                        if fs != want || info.nvars != self.nvars {
+                            let got: Vec<String> = fs.iter().map(|f| interp_tt::<K>(f).to_string()).collect();
+                            let exp: Vec<String> = want.iter().map(|f| interp_tt::<K>(f).to_string()).collect();
+                            self.viol(ctx, "exported-file-denotes-other-functions", fname, format!("imported {got:?} (nvars {}), exported {exp:?} (nvars {})", info.nvars, self.nvars));
+                        }
+                        if variant == 1 || variant == 3 {
+                            ctx.eval();
+                            if info.root_names.as_deref() != Some(&names[..]) {
+                                self.viol(ctx, "exported-file-root-names", fname, format!("{:?} vs {names:?}", info.root_names));
+                            }
+                        }
+                        if settings.is_some() {
+                            ctx.eval();
+                            if info.diagram_name.as_deref() != Some(dname) {
+                                self.viol(ctx, "exported-file-diagram-name", fname, format!("{:?}", info.diagram_name));
+                            }
+                        }
+                        // (b) the C import entry points
+                        self.c_import(ctx, &ps, which, &info, variant == 1 || variant == 3);
+                    }
+                }
+            }
+            let _ = std::fs::remove_file(&path);
+        }
+
+        fn c_import(&mut self, ctx: &mut Ctx, ps: &str, which: &[usize], info: &DumpInfo, named: bool) {
+            let api = K::api();
+            let mut err = poison_err();
+            let file = unsafe { oxidd_dddmp_open(ps.as_ptr().cast(), ps.len(), &mut err) };
+            cover("oxidd_dddmp_open");
+            let (init, msg) = unsafe { take_err(err) };
+            ctx.eval();
+            if file.is_null() || !init {
+                self.viol(ctx, "open-failed", "dddmp_open", format!("error initialized: {init}, message {msg:?}"));
+                return;
+            }
+            let sl = |s: CSlice<u32>| -> Vec<u32> { if s.ptr.is_null() { vec![] } else { unsafe { std::slice::from_raw_parts(s.ptr, s.len) }.to_vec() } };
+            let (nroots, nvars, nsupp, nnodes) = unsafe { (oxidd_dddmp_num_roots(file), oxidd_dddmp_num_vars(file), oxidd_dddmp_num_support_vars(file), oxidd_dddmp_num_nodes(file)) };
+            let supp = sl(unsafe { oxidd_dddmp_support_vars(file) });
+            let order = sl(unsafe { oxidd_dddmp_support_var_order(file) });
+            let s2l = sl(unsafe { oxidd_dddmp_support_var_to_level(file) });
+            let dname = unsafe { str_of(oxidd_dddmp_diagram_name(file)) };
+            let has_rn = unsafe { oxidd_dddmp_has_root_names(file) };
+            let rnames: Vec<String> = (0..nroots).map(|i| unsafe { str_of(oxidd_dddmp_root_name(file, i)) }).collect();
+            let has_vn = unsafe { oxidd_dddmp_has_var_names(file) };
+            let vnames: Vec<String> = (0..nvars).map(|i| unsafe { str_of(oxidd_dddmp_var_name(file, i)) }).collect();
+            for f in ["open", "num_roots", "num_vars", "num_support_vars", "num_nodes", "support_vars", "support_var_order", "support_var_to_level", "diagram_name", "has_root_names", "root_name", "has_var_names", "var_name"] {
+                cover(&format!("oxidd_dddmp_{f}"));
+            }
+            ctx.count("ffi_calls", 13);
+            ctx.eval();
+            let want_rn: Vec<String> = info.root_names.clone().unwrap_or_else(|| vec![String::new(); nroots]);
+            if nroots != info.nroots || nvars != info.nvars || nsupp as usize != info.support_vars.len() || nnodes != info.nnodes || supp != info.support_vars
+                || order.len() != supp.len() || s2l.len() != supp.len() || dname != info.diagram_name.clone().unwrap_or_default() || has_rn != named || rnames != want_rn
+                || has_vn != info.var_names.is_some() || (has_vn && Some(&vnames) != info.var_names.as_ref()) || (!has_vn && vnames.iter().any(|n| !n.is_empty()))
+            {
+                self.viol(ctx, "header-differs-from-rust", "dddmp_accessors", format!(
+                    "C: roots {nroots} vars {nvars} supp {supp:?} order {order:?} levels {s2l:?} nodes {nnodes} name {dname:?} root names {has_rn} {rnames:?} var names {has_vn} {vnames:?}; Rust DumpHeader: {info:?}"));
+            }
+            let mut roots = vec![INVALID; nroots];
+            let mut err = poison_err();
+            let explicit = which.len() % 2 == 0; // identity mapping given explicitly / default mapping
+            let ok = unsafe { (api.manager_import_dddmp)(self.cm, file, if explicit { supp.as_ptr() } else { null() }, roots.as_mut_ptr(), &mut err) };
+            let (init, msg) = unsafe { take_err(err) };
+            ctx.eval();
+            if !init {
+                self.viol(ctx, "error-not-initialized-by", "manager_import_dddmp", format!("returned {ok}"));
+            }
+            if !ok {
+                self.called(ctx, "manager_import_dddmp", "failed");
+                self.viol(ctx, "import-failed", "manager_import_dddmp", format!("file exported from this manager; error {msg:?}"));
+            } else {
+                self.pending = roots.clone();
+                for (k, root) in roots.iter().enumerate() {
+                    self.pending.remove(0);
+                    let w = which[k];
+                    self.admit(ctx, "manager_import_dddmp", &[w], &format!("root {k} of the file exported from"), *root, |r| Some(r[0].clone()));
+                }
+            }
+            unsafe { oxidd_dddmp_close(file) };
+            cover("oxidd_dddmp_close");
+        }
+
+        /// variant 0: arrays, 1: arrays with NULL functions (no labels), 2: iterator
+        fn dump_dot(&mut self, ctx: &mut Ctx, which: &[usize], variant: u8) {
+            let api = K::api();
+            let (path, ps) = self.path("dot");
+            let fns: Vec<CFn> = which.iter().map(|&i| self.c(i)).collect();
+            let names: Vec<String> = (0..which.len()).map(|i| format!("f{i}")).collect();
+            let cnames: Vec<CString> = names.iter().map(|n| CString::new(n.as_str()).unwrap()).collect();
+            let name_ptrs: Vec<*const c_char> = cnames.iter().map(|c| c.as_ptr()).collect();
+            let mut err = poison_err();
+            let (fname, ok) = match variant {
+                0 => ("manager_dump_all_dot_path", unsafe { (api.manager_dump_all_dot_path)(self.cm, ps.as_ptr().cast(), ps.len(), fns.as_ptr(), name_ptrs.as_ptr(), fns.len(), &mut err) }),
+                1 => ("manager_dump_all_dot_path", unsafe { (api.manager_dump_all_dot_path)(self.cm, ps.as_ptr().cast(), ps.len(), null(), null(), 0, &mut err) }),
+                _ => {
+                    let mut ic = IterCtx { items: fns.iter().zip(&names).map(|(f, n)| CNamed { func: *f, name: strt(n) }).collect::<Vec<_>>(), pos: 0 };
+                    let it = c_iter(&mut ic, true);
+                    ("manager_dump_all_dot_path_iter", unsafe { (api.manager_dump_all_dot_path_iter)(self.cm, ps.as_ptr().cast(), ps.len(), it, &mut err) })
+                }
+            };
+            self.called(ctx, fname, &format!("v{variant} {}", self.shape(which)));
+            let hs: Vec<String> = which.iter().map(|&i| self.hname(i)).collect();
+            self.logp(format!("{}(m, path, [{}]) -> {ok}", fq::<K>(fname), hs.join(", ")));
+            let (init, msg) = unsafe { take_err(err) };
+            let text = std::fs::read_to_string(&path).unwrap_or_default();
+            ctx.eval();
+            if !ok || !init || !text.trim_start().starts_with("digraph") || !text.trim_end().ends_with('}') {
+                self.viol(ctx, "export-failed", fname, format!("returned {ok}, error initialized {init}: {msg:?}; file starts with {:?}", text.chars().take(20).collect::<String>()));
+            }
+            self.audit(ctx, fname);
+            self.check_operands(ctx, fname, which);
+            let _ = std::fs::remove_file(&path);
+        }
+
+        /// documented failure channel: file in a directory that does not exist
+        fn failing_exports(&mut self, ctx: &mut Ctx, a: usize) {
+            let api = K::api();
+            let ps = format!("{}/no-such-dir/x.out", self.dir.display());
+            let fns = [self.c(a)];
+            let mut err = poison_err();
+            let ok = unsafe { (api.manager_export_dddmp)(self.cm, ps.as_ptr().cast(), ps.len(), fns.as_ptr(), 1, null(), null(), &mut err) };
+            self.called(ctx, "manager_export_dddmp", "bad-path");
+            let (init, msg) = unsafe { take_err(err) };
+            ctx.eval();
+            if ok || !init || msg.is_empty() {
+                self.viol(ctx, "error-not-reported-by", "manager_export_dddmp", format!("path in a missing directory: returned {ok}, error initialized {init}, message {msg:?}"));
+            }
+            let mut err = poison_err();
+            let ok = unsafe { (api.manager_dump_all_dot_path)(self.cm, ps.as_ptr().cast(), ps.len(), null(), null(), 0, &mut err) };
+            self.called(ctx, "manager_dump_all_dot_path", "bad-path");
+            let (init, msg) = unsafe { take_err(err) };
+            ctx.eval();
+            if ok || !init || msg.is_empty() {
+                self.viol(ctx, "error-not-reported-by", "manager_dump_all_dot_path", format!("path in a missing directory: returned {ok}, error initialized {init}, message {msg:?}"));
+            }
+            let mut err = poison_err();
+            let f = unsafe { oxidd_dddmp_open(ps.as_ptr().cast(), ps.len(), &mut err) };
+            let (init, msg) = unsafe { take_err(err) };
+            ctx.eval();
+            if !f.is_null() || !init || msg.is_empty() {
+                self.viol(ctx, "error-not-reported-by", "dddmp_open", format!("missing file: returned {f:?}, error initialized {init}, message {msg:?}"));
+            }
+            // error == NULL is allowed
+            let ok = unsafe { (api.manager_export_dddmp)(self.cm, ps.as_ptr().cast(), ps.len(), fns.as_ptr(), 1, null(), null(), null_mut()) };
+            ctx.eval();
+            if ok {
+                self.viol(ctx, "error-not-reported-by", "manager_export_dddmp", "error == NULL, missing directory: returned true".into());
+            }
+            unsafe { oxidd_dddmp_close(null_mut()) };
+            self.audit(ctx, "failing exports");
+        }
+
+        /// `oxidd_*_manager_visualize*`: serves the diagram over HTTP until it is fetched once; the
+        /// harness fetches it from a second thread. Only ownership / no-crash is asserted (a busy
+        /// port is a legitimate error).
+        fn visualize(&mut self, ctx: &mut Ctx, which: &[usize], variant: u8, port: u16) {
+            use std::io::{Read, Write};
+            let api = K::api();
+            let fns: Vec<CFn> = which.iter().map(|&i| self.c(i)).collect();
+            let names: Vec<String> = (0..which.len()).map(|i| format!("f{i}")).collect();
+            let cm = SendPtr(self.cm);
+            let (tx, rx) = std::sync::mpsc::channel::<(bool, bool, String)>();
+            let job = SendPtr((fns, names));
+            let fname = ["manager_visualize", "manager_visualize_iter", "manager_visualize_with_names_iter"][variant as usize % 3];
+            let h = std::thread::spawn(move || {
+                let cm = cm;
+                let job = job;
+                let (fns, names) = &job.0;
+                let dn = "c19vis";
+                let cnames: Vec<CString> = names.iter().map(|n| CString::new(n.as_str()).unwrap()).collect();
+                let name_ptrs: Vec<*const c_char> = cnames.iter().map(|c| c.as_ptr()).collect();
+                let mut err = poison_err();
+                let ok = match variant % 3 {
+                    0 => unsafe { (api.manager_visualize)(cm.0, dn.as_ptr().cast(), dn.len(), fns.as_ptr(), fns.len(), name_ptrs.as_ptr(), port, &mut err) },
+                    1 => {
+                        let mut ic = IterCtx { items: fns.clone(), pos: 0 };
+                        let it = c_iter(&mut ic, true);
+                        unsafe { (api.manager_visualize_iter)(cm.0, dn.as_ptr().cast(), dn.len(), it, port, &mut err) }
+                    }
+                    _ => {
+                        let mut ic = IterCtx { items: fns.iter().zip(names).map(|(f, n)| CNamed { func: *f, name: strt(n) }).collect::<Vec<_>>(), pos: 0 };
+                        let it = c_iter(&mut ic, false);
+                        unsafe { (api.manager_visualize_with_names_iter)(cm.0, dn.as_ptr().cast(), dn.len(), it, port, &mut err) }
+                    }
+                };
+                let (init, msg) = unsafe { take_err(err) };
+                let _ = tx.send((ok, init, msg));
+            });
+            // fetch
+            let t0 = std::time::Instant::now();
+            let mut body = String::new();
+            let mut result = None;
+            while t0.elapsed().as_millis() < 4000 {
+                if let Ok(r) = rx.try_recv() {
+                    result = Some(r);
+                    break;
+                }
+                if body.is_empty() {
+                    if let Ok(mut s) = std::net::TcpStream::connect(("localhost", port)) {
+                        let _ = s.set_read_timeout(Some(std::time::Duration::from_millis(1500)));
+                        let _ = s.write_all(b"GET /diagrams HTTP/1.1\r\nHost: localhost\r\nConnection: close\r\n\r\n");
+                        let mut buf = Vec::new();
+                        let mut chunk = [0u8; 4096];
+                        while let Ok(k) = s.read(&mut chunk) {
+                            if k == 0 {
+                                break;
+                            }
+                            buf.extend_from_slice(&chunk[..k]);
+                            // headers + body complete?
+                            let text = String::from_utf8_lossy(&buf);
+                            if let Some(p) = text.find("\r\n\r\n") {
+                                let len: usize = text[..p].lines().find_map(|l| l.to_ascii_lowercase().strip_prefix("content-length:").map(|v| v.trim().parse().unwrap_or(0))).unwrap_or(0);
+                                if buf.len() >= p + 4 + len {
+                                    break;
+                                }
+                            }
+                        }
+                        body = String::from_utf8_lossy(&buf).into_owned();
+                    }
+                }
+                std::thread::sleep(std::time::Duration::from_millis(5));
+            }
+            if result.is_none() {
+                result = rx.recv_timeout(std::time::Duration::from_millis(2000)).ok();
+            }
+            self.called(ctx, fname, &self.shape(which));
+            self.logp(format!("{}(m, \"c19vis\", {} functions, port {port})", fq::<K>(fname), which.len()));
+            match result {
+                None => {
+                    // still serving: nobody fetched (e.g. no loopback networking in this sandbox); the thread is left behind
+                    ctx.count("visualize_not_fetched", 1);
+                    drop(h);
+                }
+                Some((ok, init, msg)) => {
+                    let _ = h.join();
+                    ctx.eval();
+                    if !init {
+                        self.viol(ctx, "error-not-initialized-by", fname, format!("returned {ok}"));
+                    }
+                    if ok {
+                        ctx.count("visualize_served", 1);
+                        ctx.eval();
+                        if !body.contains("200 OK") || !body.contains("c19vis") {
+                            self.viol(ctx, "served-data-incomplete", fname, body.chars().take(200).collect());
+                        }
+                    } else {
+                        ctx.count("visualize_failed", 1);
+                        let _ = msg;
+                    }
+                }
+            }
+            self.audit(ctx, fname);
+            self.check_operands(ctx, fname, which);
+        }
+
+        // ------------------------------------------------------------------ end of a sequence
+
+        fn gc_until(&mut self, want: usize) -> usize {
+            let api = K::api();
+            let mut left = usize::MAX;
+            // `gc()` returns at once while the background collector is at work: bounded retry
+            for _ in 0..300 {
+                unsafe { (api.manager_gc)(self.cm) };
+                left = unsafe { (api.manager_num_inner_nodes)(self.cm) };
+                if left == want {
+                    break;
+                }
+                std::thread::sleep(std::time::Duration::from_millis(1));
+            }
+            left
+        }
+
+        /// unref every handle, collect, require an empty manager, give the manager references back and
+        /// require the store to be freed. `variant` 0: functions first; 1: manager references first (the
+        /// functions keep the store alive, a new manager handle comes from `containing_manager`)
+        fn teardown(mut self, ctx: &mut Ctx, rng: &mut Rng, variant: u8) {
+            let api = K::api();
+            let tainted = !self.audits.get();
+            while !self.subs.is_empty() {
+                self.free_subst(ctx, 0);
+            }
+            // the mirror goes first
+            for e in self.ents.iter_mut() {
+                e.r = None;
+                e.tt = None;
+            }
+            self.rm = None;
+            let l = wait_for(self.base_live + 1, 2000);
+            ctx.eval();
+            if l > self.base_live + 1 && cfg!(oxidd_verif) {
+                ctx.violation("ffi:rust-mirror-manager-not-freed", self.witness(&format!("LIVE_STORES {l}, baseline {}", self.base_live)));
+            }
+            let want = if K::SEM == Sem::ZeroSup { self.nvars as usize } else { 0 };
+            let mut keep: Option<usize> = None;
+            if variant == 1 {
+                keep = (1..self.ents.len()).find(|&i| !self.ents[i].c.p.is_null());
+            }
+            if let Some(k) = keep {
+                // give all manager references back while function handles are still around
+                while self.mgr_refs > 0 {
+                    unsafe { (api.manager_unref)(self.cm) };
+                    self.called(ctx, "manager_unref", "functions-alive");
+                    self.logp(format!("{}(m)", fq::<K>("manager_unref")));
+                    self.mgr_refs -= 1;
+                }
+                std::thread::sleep(std::time::Duration::from_millis(3));
+                ctx.eval();
+                if cfg!(oxidd_verif) && live_stores() < self.base_live + 1 {
+                    self.viol(ctx, "manager-freed-while-functions-alive", "manager_unref", format!("{} function handles still owned", self.ents.len() - 1));
+                    return;
+                }
+                let m2 = unsafe { (api.containing_manager)(self.c(k)) };
+                self.called(ctx, "containing_manager", "after-manager-unref");
+                self.logp(format!("m = {}({})", fq::<K>("containing_manager"), self.hname(k)));
+                self.cm = m2;
+                self.mgr_refs = 1;
+            }
+            // functions in random order, reference by reference
+            let mut todo: Vec<usize> = Vec::new();
+            for i in 1..self.ents.len() {
+                for _ in 0..self.ents[i].owned.max(1) {
+                    todo.push(i);
+                }
+            }
+            rng.shuffle(&mut todo);
+            let hs: Vec<String> = todo.iter().map(|&i| self.hname(i)).collect();
+            self.logp(format!("{} each of [{}]", fq::<K>("unref"), hs.join(", ")));
+            for (k, &i) in todo.iter().enumerate() {
+                unsafe { (api.unref)(self.c(i)) };
+                self.called(ctx, "unref", "teardown");
+                if self.ents[i].owned > 0 {
+                    self.ents[i].owned -= 1;
+                }
+                if k % 4 == 3 {
+                    self.audit(ctx, "unref");
+                }
+            }
+            self.ents.truncate(1);
+            self.audit(ctx, "unref");
+            let left = self.gc_until(want);
+            self.called(ctx, "manager_gc", "teardown");
+            self.logp(format!("{}(m)", fq::<K>("manager_gc")));
+            ctx.eval();
+            if left != want && !tainted {
+                let sig = format!("{}:ffi:nodes-left-after-unref-all", K::NAME);
+                ctx.violation(&sig, self.witness(&format!("{left} inner nodes after unref of every handle + gc, expected {want}")));
+            }
+            // manager references: the store must survive until the last one
+            while self.mgr_refs > 0 {
+                if self.mgr_refs == 1 && cfg!(oxidd_verif) {
+                    std::thread::sleep(std::time::Duration::from_millis(2));
+                    ctx.eval();
+                    if live_stores() < self.base_live + 1 {
+                        self.viol(ctx, "manager-freed-before-last-unref", "manager_unref", String::new());
+                        return;
+                    }
+                }
+                unsafe { (api.manager_unref)(self.cm) };
+                self.called(ctx, "manager_unref", "teardown");
+                self.logp(format!("{}(m)", fq::<K>("manager_unref")));
+                self.mgr_refs -= 1;
+            }
+            let l = wait_freed(self.base_live);
+            ctx.eval();
+            if l > self.base_live {
+                let sig = match &self.suspect {
+                    Some(x) => format!("{}:ffi:manager-not-freed-after:{x}", K::NAME),
+                    None => "ffi:manager-not-freed".to_string(),
+                };
+                ctx.violation(&sig, self.witness(&format!("LIVE_STORES {l} after the last reference was given back (waited up to 2 s), baseline {}", self.base_live)));
+            } else if l < self.base_live {
+                ctx.violation("ffi:manager-freed-twice", self.witness(&format!("LIVE_STORES {l} below the baseline {}", self.base_live)));
+            }
+            ctx.count("sequences", 1);
+        }
+
+        // ------------------------------------------------------------------ random call sequences
+
+        /// a valid entry, or (with a fixed probability) the invalid handle / an invalid result
+        fn pick(&self, rng: &mut Rng) -> usize {
+            let p_inv = if self.small { 6 } else { 12 };
+            let inv: Vec<usize> = (0..self.ents.len()).filter(|&i| self.ents[i].r.is_none()).collect();
+            let val: Vec<usize> = (1..self.ents.len()).filter(|&i| self.ents[i].r.is_some()).collect();
+            if val.is_empty() || rng.below(p_inv) == 0 {
+                return *rng.pick(&inv);
+            }
+            *rng.pick(&val)
+        }
+        fn pick_valid(&self, rng: &mut Rng) -> Option<usize> {
+            let v: Vec<usize> = (1..self.ents.len()).filter(|&i| self.ents[i].r.is_some()).collect();
+            if v.is_empty() { None } else { Some(*rng.pick(&v)) }
+        }
+        /// operand for a `vars` / literal-set position: a suitable cube (built on demand) or invalid
+        fn pick_cube_operand(&mut self, ctx: &mut Ctx, rng: &mut Rng, positive: bool) -> usize {
+            if rng.below(10) == 0 {
+                return 0;
+            }
+            let v: Vec<usize> = (1..self.ents.len()).filter(|&i| self.ents[i].r.is_some() && if positive { self.ents[i].pos_cube } else { self.ents[i].cube }).collect();
+            if !v.is_empty() && rng.below(3) != 0 {
+                return *rng.pick(&v);
+            }
+            let mut lits: Vec<(u32, bool)> = Vec::new();
+            for v in 0..self.nvars {
+                if rng.bool() {
+                    lits.push((v, positive || rng.bool()));
+                }
+            }
+            let i = self.build_cube(ctx, &lits);
+            if self.ents[i].r.is_some() { i } else { 0 }
+        }
+
+        fn random_step(&mut self, ctx: &mut Ctx, rng: &mut Rng) {
+            let n = self.nvars;
+            if n == 0 {
+                self.add_vars(ctx, 2);
+                return;
+            }
+            // at most two invalid results are kept as operands (besides the INVALID constant)
+            let inv: Vec<usize> = (1..self.ents.len()).filter(|&i| self.ents[i].r.is_none()).collect();
+            if inv.len() > 2 {
+                self.unref(ctx, inv[0]);
+                return;
+            }
+            // keep the registry small
+            if self.ents.len() > 14 || (self.ents.len() > 6 && rng.below(5) == 0) {
+                let i = 1 + rng.usize(self.ents.len() - 1);
+                self.unref(ctx, i);
+                return;
+            }
+            let quant = K::qapi().is_some();
+            let zb = K::zapi().is_some();
+            let w = rng.below(100);
+            match w {
+                0..=9 => {
+                    self.leaf(ctx, rng.below(4) as u8, rng.below(n as u64) as u32);
+                }
+                10..=13 => {
+                    let a = self.pick(rng);
+                    self.not(ctx, a);
+                }
+                14..=31 => {
+                    let (a, b) = (self.pick(rng), self.pick(rng));
+                    self.bin(ctx, *rng.pick(&ALL_BOPS), a, b);
+                }
+                32..=36 => {
+                    let (a, b, c) = (self.pick(rng), self.pick(rng), self.pick(rng));
+                    self.ite(ctx, a, b, c);
+                }
+                37..=42 => {
+                    let a = self.pick(rng);
+                    self.cofactor(ctx, rng.below(3) as u8, a);
+                }
+                43..=49 => {
+                    if let Some(a) = self.pick_valid(rng) {
+                        self.queries(ctx, a, rng);
+                    }
+                }
+                50..=53 => {
+                    let a = self.pick(rng);
+                    if rng.bool() {
+                        self.pick_cube_dd(ctx, a, None);
+                    } else {
+                        let s = self.pick_cube_operand(ctx, rng, false);
+                        let a = a.min(self.ents.len() - 1);
+                        self.pick_cube_dd(ctx, a, Some(s));
+                    }
+                }
+                54..=59 => {
+                    let a = self.pick(rng);
+                    self.ref_(ctx, a);
+                }
+                60..=65 => {
+                    let a = self.pick(rng);
+                    self.unref(ctx, a);
+                }
+                66..=68 => {
+                    let a = self.pick_valid(rng).unwrap_or(0);
+                    self.mgr_ref_ops(ctx, rng.below(3) as u8, a);
+                }
+                69..=71 => self.mgr_queries(ctx),
+                72..=74 => {
+                    if self.small {
+                        self.check_names(ctx, "nothing");
+                    } else {
+                        match rng.below(3) {
+                            0 if n < 6 => {
+                                let k = rng.range(1, (6 - n as usize).min(2));
+                                let pool = ["", "a", "b", "x y", "ä", "c", ""];
+                                let names: Vec<String> = (0..k).map(|_| rng.pick(&pool).to_string()).collect();
+                                self.add_named_vars(ctx, &names, rng.below(4) as u8);
+                            }
+                            1 if n < 6 => self.add_vars(ctx, 1),
+                            _ => {
+                                let pool = ["", "a", "b", "n0", "n1", "ä"];
+                                let name = rng.pick(&pool).to_string();
+                                self.set_var_name(ctx, rng.below(n as u64) as u32, &name);
+                            }
+                        }
+                    }
+                }
+                75..=77 => self.gc(ctx),
+                78..=79 => {
+                    // known: set_var_order aborts on a full manager (C14) -> ample managers only
+                    if !self.small {
+                        let mut order = rng.perm(n as usize);
+                        if rng.below(3) == 0 {
+                            order.truncate(rng.range(0, n as usize));
+                        }
+                        self.set_var_order(ctx, &order);
+                    }
+                }
+                80..=83 => {
+                    let k = rng.range(1, 3);
+                    let which: Vec<usize> = (0..k).filter_map(|_| if rng.below(12) == 0 { Some(0) } else { self.pick_valid(rng) }).collect();
+                    if which.is_empty() {
+                        return;
+                    }
+                    match rng.below(3) {
+                        0 => self.dump_dot(ctx, &which, rng.below(3) as u8),
+                        _ => {
+                            let settings = if rng.bool() { None } else { Some((rng.below(2) as u8, rng.bool())) };
+                            self.dddmp_roundtrip(ctx, &which, rng.below(4) as u8, settings);
+                        }
+                    }
+                }
+                84 => {
+                    let (a, b) = (self.pick(rng), self.pick(rng));
+                    self.run_in_pool(ctx, a, b);
+                }
+                85 => {
+                    if let Some(a) = self.pick_valid(rng) {
+                        self.failing_exports(ctx, a);
+                    }
+                }
+                _ if quant => match rng.below(5) {
+                    0 => {
+                        let v = self.pick_cube_operand(ctx, rng, false);
+                        let a = self.pick(rng);
+                        self.restrict(ctx, a, v);
+                    }
+                    1 | 2 => {
+                        let v = self.pick_cube_operand(ctx, rng, true);
+                        let a = self.pick(rng);
+                        self.quant(ctx, *rng.pick(&ALL_QUANTS), a, v);
+                    }
+                    3 => {
+                        let v = self.pick_cube_operand(ctx, rng, true);
+                        let (a, b) = (self.pick(rng), self.pick(rng));
+                        self.apply_quant(ctx, *rng.pick(&ALL_QUANTS), *rng.pick(&ALL_BOPS), a, b, v);
+                    }
+                    _ => {
+                        let a = self.pick(rng);
+                        let mut vars = rng.perm(n as usize);
+                        vars.truncate(rng.range(0, n as usize));
+                        let pairs: Vec<(u32, usize)> = vars.into_iter().filter_map(|v| self.pick_valid(rng).map(|i| (v, i))).collect();
+                        self.substitute(ctx, a, &pairs, rng.below(10) == 0, rng.below(4) == 0);
+                    }
+                },
+                _ if zb => match rng.below(6) {
+                    0 => {
+                        self.z_leaf(ctx, *rng.pick(&[ZOp::Singleton, ZOp::Empty, ZOp::Base]), rng.below(n as u64) as u32);
+                    }
+                    1 | 2 => {
+                        let a = self.pick(rng);
+                        self.z_var_op(ctx, *rng.pick(&[ZOp::Subset0, ZOp::Subset1, ZOp::Change]), a, rng.below(n as u64) as u32);
+                    }
+                    3 | 4 => {
+                        let (a, b) = (self.pick(rng), self.pick(rng));
+                        self.z_bin(ctx, *rng.pick(&[ZOp::Union, ZOp::Intsec, ZOp::Diff]), a, b);
+                    }
+                    _ => self.random_make_node(ctx, rng),
+                },
+                _ => {}
+            }
+        }
+
+        /// make_node with operands that satisfy the documented precondition (var's level above the
+        /// levels of hi and lo) or are invalid
+        fn random_make_node(&mut self, ctx: &mut Ctx, rng: &mut Rng) {
+            let n = self.nvars;
+            let v = rng.below(n as u64) as u32;
+            let var = if rng.below(8) == 0 { 0 } else { self.z_leaf(ctx, ZOp::Singleton, v) };
+            let vl = unsafe { (K::api().manager_var_to_level)(self.cm, v) };
+            let below: Vec<usize> = (1..self.ents.len())
+                .filter(|&i| i != var && self.ents[i].r.is_some() && {
+                    let l = unsafe { (K::api().node_level)(self.c(i)) };
+                    l == u32::MAX || l > vl
+                })
+                .collect();
+            let choose = |rng: &mut Rng| -> usize { if below.is_empty() || rng.below(6) == 0 { 0 } else { *rng.pick(&below) } };
+            let (hi, lo) = (choose(rng), choose(rng));
+            // one reference of hi and of lo is given away: take extra ones so that the entries survive
+            for i in [hi, lo] {
+                if i != 0 {
+                    self.ref_(ctx, i);
+                }
+            }
+            self.z_make_node(ctx, var, hi, lo);
+        }
+    }
+
+    // ---------------------------------------------------------------------------------------------
+    // coverage bookkeeping: every exported symbol of the FFI crate
+    // ---------------------------------------------------------------------------------------------
+
+    macro_rules! sname {
+        ($f:ident) => {
+            stringify!($f)
+        };
+        ($f:ident, $l:literal) => {
+            $l
+        };
+    }
+    macro_rules! def_names {
+        ($name:ident; $( $f:ident $(= $l:literal)? ( $($a:ident : $t:ty),* ) $(-> $r:ty)? ; )* ) => {
+            pub const $name: &[&str] = &[ $( sname!($f $(, $l)?), )* ];
+        };
+    }
+    common_fns!(def_names; COMMON_NAMES;);
+    quant_fns!(def_names; QUANT_NAMES;);
+    zbdd_fns!(def_names; ZBDD_NAMES;);
+    const UTIL_NAMES: &[&str] = &[
+        "oxidd_error_clone", "oxidd_error_free", "oxidd_assignment_free", "oxidd_string_clone", "oxidd_string_free", "oxidd_natural_free",
+        "oxidd_natural_eq", "oxidd_natural_cmp", "oxidd_natural_to_string", "oxidd_natural_clone", "oxidd_dddmp_open", "oxidd_dddmp_close",
+        "oxidd_dddmp_diagram_name", "oxidd_dddmp_num_nodes", "oxidd_dddmp_num_vars", "oxidd_dddmp_num_support_vars", "oxidd_dddmp_support_vars",
+        "oxidd_dddmp_support_var_order", "oxidd_dddmp_support_var_to_level", "oxidd_dddmp_has_var_names", "oxidd_dddmp_var_name",
+        "oxidd_dddmp_num_roots", "oxidd_dddmp_has_root_names", "oxidd_dddmp_root_name",
+    ];
+    fn all_symbols() -> BTreeSet<String> {
+        let mut s = BTreeSet::new();
+        for k in ["bdd", "bcdd", "zbdd"] {
+            for f in COMMON_NAMES {
+                s.insert(format!("oxidd_{k}_{f}"));
+            }
+        }
+        for k in ["bdd", "bcdd"] {
+            for f in QUANT_NAMES {
+                s.insert(format!("oxidd_{k}_{f}"));
+            }
+        }
+        for f in ZBDD_NAMES {
+            s.insert(format!("oxidd_zbdd_{f}"));
+        }
+        for f in UTIL_NAMES {
+            s.insert(f.to_string());
+        }
+        s
+    }
+    fn report_coverage(ctx: &mut Ctx) {
+        let all = all_symbols();
+        let cov = COVERED.lock().unwrap().clone();
+        let missing: Vec<&String> = all.iter().filter(|s| !cov.contains(*s)).collect();
+        ctx.count("ffi_functions_covered", cov.intersection(&all).count() as u64);
+        ctx.count("ffi_functions_exported", all.len() as u64);
+        ctx.sample(|| format!("this shard called {} of the {} exported oxidd_* symbols; not called: {missing:?}", all.len() - missing.len(), all.len()));
+    }
+
+    /// 2 s for the first store that is not freed, 300 ms afterwards (keeps runs with a known leak short)
+    static LEAK_SEEN: std::sync::atomic::AtomicBool = std::sync::atomic::AtomicBool::new(false);
+    fn wait_freed(base: i64) -> i64 {
+        let ms = if LEAK_SEEN.load(std::sync::atomic::Ordering::Relaxed) { 300 } else { 2000 };
+        let l = wait_for(base, ms);
+        if l > base {
+            LEAK_SEEN.store(true, std::sync::atomic::Ordering::Relaxed);
+        }
+        l
+    }
+
+    fn case_line(label: &str) {
+        println!("@@{{\"t\":\"case\",\"case\":{}}}", crate::ctx::json_str(label));
+    }
+
+    // ---------------------------------------------------------------------------------------------
+    // drivers
+    // ---------------------------------------------------------------------------------------------
+
+    static PORT_NO: std::sync::atomic::AtomicU32 = std::sync::atomic::AtomicU32::new(0);
+    fn next_port() -> u16 {
+        let k = PORT_NO.fetch_add(1, std::sync::atomic::Ordering::Relaxed);
+        (21000 + (std::process::id().wrapping_mul(37).wrapping_add(k * 101)) % 20000) as u16
+    }
+
+    fn run_sequence<K: FfiKind>(ctx: &mut Ctx, rng: &mut Rng, seq: usize, small: bool, steps: usize, vis: bool)
+    where
+        for<'id> MgrOf<'id, K>: HasWorkers,
+        for<'x> INodeOfFunc<'x, K::F>: HasLevel,
+    {
+        let n = rng.range(2, if small { 4 } else { 5 }) as u32;
+        let cap = if !small {
+            1 << 14
+        } else if K::SEM == Sem::ZeroSup {
+            // known (C14): add_vars aborts if the tautology chain does not fit
+            n as usize + rng.range(1, 10)
+        } else {
+            rng.range(2, 14)
+        };
+        let threads = if rng.below(4) == 0 { 2 } else { 1 };
+        let variant = rng.below(2) as u8;
+        let label = format!("c19_ffi seq={seq} kind={} n={n} cap={cap} threads={threads} steps={steps} teardown={variant} seed={} shard={}/{}", K::NAME, ctx.seed, ctx.shard, ctx.nshards);
+        case_line(&label);
+        let mut s = Sess::<K>::new(ctx, n, cap, small, threads, &format!("seq {seq}"));
+        for _ in 0..steps {
+            s.random_step(ctx, rng);
+        }
+        if vis {
+            if let Some(a) = s.pick_valid(rng) {
+                for v in 0..3u8 {
+                    s.visualize(ctx, &[a, 0], v, next_port());
+                }
+            }
+        }
+        s.mgr_queries(ctx);
+        if seq < 3 {
+            unsafe { (K::api().print_stats)() };
+            cover(&fq::<K>("print_stats"));
+        }
+        s.teardown(ctx, rng, variant);
+    }
+
+    /// standalone reference-count audit (used where no `Sess` exists)
+    fn refcount_errs<K: FfiKind>(cm: CMgr, owned: &[(CFn, usize)]) -> Vec<(String, String)>
+    where
+        for<'x> INodeOfFunc<'x, K::F>: HasLevel,
+    {
+        let m = unsafe { K::mgr_of(cm) };
+        let s = m.with_manager_exclusive(|m| audit::structural(&*m, K::rule(), &|t| K::SEM == Sem::ZeroSup && !K::term(t)));
+        let mut ext: HashMap<NodeID, usize> = HashMap::new();
+        m.with_manager_shared(|mm| {
+            let t = K::F::t(mm);
+            let mut id = t.as_edge(mm).node_id();
+            while let Some((_, ch)) = s.node_children.get(&id) {
+                *ext.entry(id).or_insert(0) += 1;
+                id = ch[0].0;
+            }
+        });
+        for (c, n) in owned {
+            if c.p.is_null() {
+                continue;
+            }
+            let id = unsafe { K::func_of(*c) }.with_manager_shared(|_, e| e.node_id());
+            if s.node_children.contains_key(&id) {
+                *ext.entry(id).or_insert(0) += n;
+            }
+        }
+        audit::refcounts(&s, &ext)
+    }
+
+    /// 2..3 threads work on one manager through the C API (every entry point documents its locking
+    /// behaviour; handles are plain values). Each thread checks its results against truth tables.
+    fn threaded<K: FfiKind>(ctx: &mut Ctx, rng: &mut Rng, round: usize)
+    where
+        for<'id> MgrOf<'id, K>: HasWorkers,
+        for<'x> INodeOfFunc<'x, K::F>: HasLevel,
+    {
+        let api = K::api();
+        let n = 4u32;
+        let nthreads = rng.range(2, 3);
+        let steps = 150usize;
+        case_line(&format!("c19_ffi threads round={round} kind={} threads={nthreads} seed={} shard={}", K::NAME, ctx.seed, ctx.shard));
+        let base = live_stores();
+        let cm = unsafe { (api.manager_new)(1 << 14, 1 << 10, 2) };
+        unsafe { (api.manager_add_vars)(cm, n) };
+        let xs: Vec<CFn> = (0..n).map(|v| unsafe { (api.var)(cm, v) }).collect();
+        let eval_tt = move |c: CFn| {
+            Tt::from_fn(n, |a| {
+                let args: Vec<CVarBool> = (0..n).map(|v| CVarBool { var: v, val: (a >> v) & 1 == 1 }).collect();
+                unsafe { (api.eval)(c, args.as_ptr(), args.len()) }
+            })
+        };
+        let mut handles = Vec::new();
+        for t in 0..nthreads {
+            let seed = rng.next();
+            let xs2 = SendPtr(xs.clone());
+            let cm2 = SendPtr(cm);
+            handles.push(std::thread::spawn(move || {
+                let xs2 = xs2;
+                let cm2 = cm2;
+                let mut rng = Rng::new(seed);
+                let mut errs: Vec<(String, String)> = Vec::new();
+                let mut calls = 0u64;
+                // every thread takes its own references to the shared variables
+                let mut own: Vec<(CFn, Tt)> = xs2.0.iter().enumerate().map(|(v, x)| (unsafe { (api.ref_)(*x) }, Tt::var(n, v as u32))).collect();
+                let m2 = unsafe { (api.manager_ref)(cm2.0) };
+                for step in 0..steps {
+                    let a = rng.usize(own.len());
+                    let b = rng.usize(own.len());
+                    let c3 = rng.usize(own.len());
+                    calls += 1;
+                    let (name, c, t) = match rng.below(10) {
+                        0 => ("not", unsafe { (api.not)(own[a].0) }, own[a].1.not()),
+                        1 | 2 => ("and", unsafe { (api.and)(own[a].0, own[b].0) }, own[a].1.and(&own[b].1)),
+                        3 => ("or", unsafe { (api.or)(own[a].0, own[b].0) }, own[a].1.or(&own[b].1)),
+                        4 => ("xor", unsafe { (api.xor)(own[a].0, own[b].0) }, own[a].1.xor(&own[b].1)),
+                        5 => ("ite", unsafe { (api.ite)(own[a].0, own[b].0, own[c3].0) }, own[a].1.ite(&own[b].1, &own[c3].1)),
+                        6 => ("ref", unsafe { (api.ref_)(own[a].0) }, own[a].1.clone()),
+                        7 => {
+                            if own.len() > n as usize {
+                                let (h, _) = own.swap_remove(a);
+                                unsafe { (api.unref)(h) };
+                            }
+                            continue;
+                        }
+                        8 => {
+                            let d = unsafe { (api.sat_count_double)(own[a].0, n) };
+                            if d != own[a].1.count_ones() as f64 {
+                                errs.push(("result-differs-from-rust:sat_count_double".into(), format!("thread {t} step {step}: {} -> {d}", own[a].1)));
+                            }
+                            let nc = unsafe { (api.node_count)(own[a].0) };
+                            if nc == 0 {
+                                errs.push(("result-differs-from-rust:node_count".into(), format!("thread {t} step {step}: node_count 0")));
+                            }
+                            continue;
+                        }
+                        _ => {
+                            if t == 0 && step % 16 == 0 {
+                                unsafe { (api.manager_gc)(m2) };
+                            } else {
+                                let _ = unsafe { (api.manager_num_inner_nodes)(m2) };
+                            }
+                            continue;
+                        }
+                    };
+                    if c.p.is_null() {
+                        errs.push((format!("unexpected-invalid-result:{name}"), format!("thread {t} step {step}")));
+                        continue;
+                    }
+                    let got = eval_tt(c);
+                    if got != t {
+                        errs.push((format!("result-differs-from-rust:{name}"), format!("thread {t} step {step}: expected {t}, handle denotes {got}")));
+                    }
+                    own.push((c, t));
+                    if own.len() > 24 {
+                        let (h, _) = own.swap_remove(rng.usize(own.len()));
+                        unsafe { (api.unref)(h) };
+                    }
+                }
+                unsafe { (api.manager_unref)(m2) };
+                (SendPtr(own), errs, calls)
+            }));
+        }
+        let mut owned: Vec<(CFn, usize)> = xs.iter().map(|x| (*x, 1)).collect();
+        let mut tables: Vec<(CFn, Tt)> = Vec::new();
+        for h in handles {
+            let (own, errs, calls) = h.join().expect("worker thread panicked");
+            ctx.count("ffi_calls", calls);
+            ctx.evals(calls);
+            for (clause, d) in errs {
+                ctx.violation(&format!("{}:ffi:threads:{clause}", K::NAME), d);
+            }
+            for (c, t) in own.0 {
+                owned.push((c, 1));
+                tables.push((c, t));
+            }
+        }
+        // quiescent: every handle still denotes its function; counts are exact
+        for (c, t) in &tables {
+            ctx.eval();
+            let got = eval_tt(*c);
+            if got != *t {
+                ctx.violation(&format!("{}:ffi:threads:handle-changed-function", K::NAME), format!("expected {t}, now {got}"));
+            }
+        }
+        ctx.eval();
+        if let Some((clause, d)) = refcount_errs::<K>(cm, &owned).first() {
+            ctx.violation(&format!("{}:ffi:threads:{clause}", K::NAME), format!("{nthreads} threads x {steps} calls on one manager, then quiescent: {d}"));
+        }
+        for (c, k) in &owned {
+            for _ in 0..*k {
+                unsafe { (api.unref)(*c) };
+            }
+        }
+        let want = if K::SEM == Sem::ZeroSup { n as usize } else { 0 };
+        let mut left = usize::MAX;
+        for _ in 0..300 {
+            unsafe { (api.manager_gc)(cm) };
+            left = unsafe { (api.manager_num_inner_nodes)(cm) };
+            if left == want {
+                break;
+            }
+            std::thread::sleep(std::time::Duration::from_millis(1));
+        }
+        ctx.eval();
+        if left != want {
+            ctx.violation(&format!("{}:ffi:threads:nodes-left-after-unref-all", K::NAME), format!("{left} nodes left, expected {want}"));
+        }
+        unsafe { (api.manager_unref)(cm) };
+        let l = wait_freed(base);
+        ctx.eval();
+        if l != base {
+            ctx.violation("ffi:manager-not-freed", format!("{} threads scenario: LIVE_STORES {l}, baseline {base}", K::NAME));
+        }
+        ctx.distinct((K::NAME, "threads", round));
+        ctx.count("thread_scenarios", 1);
+    }
+    /// sat_count results that do not fit the inline representation of `oxidd_natural_t`
+    fn bignat<K: FfiKind>(ctx: &mut Ctx)
+    where
+        for<'id> MgrOf<'id, K>: HasWorkers,
+        for<'x> INodeOfFunc<'x, K::F>: HasLevel,
+    {
+        let api = K::api();
+        let n = 70u32;
+        case_line(&format!("c19_ffi bignat kind={}", K::NAME));
+        let base = live_stores();
+        let cm = unsafe { (api.manager_new)(1 << 16, 1 << 10, 1) };
+        unsafe { (api.manager_add_vars)(cm, n) };
+        let rm = setup::<K>(1 << 16, 1 << 10, 1, n);
+        // x0 | … | x69 has 2^70 - 1 models. (ZBDD: "all subsets but the empty one" through the set
+        // operations; the Boolean connectives on 70 ZBDD variables are exponential without an apply cache.)
+        let (f, rf) = if let Some(z) = K::zapi() {
+            let t = unsafe { (api.true_)(cm) };
+            let b = unsafe { (z.base)(cm) };
+            let f = unsafe { (z.diff)(t, b) };
+            unsafe {
+                (api.unref)(t);
+                (api.unref)(b);
+            }
+            let rt = rm.with_manager_shared(|m| K::F::t(m));
+            let rb = K::z_mirror(ZOp::Base, &rm, &[], 0);
+            (f, K::z_mirror(ZOp::Diff, &rm, &[rt, rb], 0))
+        } else {
+            let mut f = unsafe { (api.false_)(cm) };
+            let mut rf = rm.with_manager_shared(|m| K::F::f(m));
+            for v in 0..n {
+                let x = unsafe { (api.var)(cm, v) };
+                let g = unsafe { (api.or)(f, x) };
+                unsafe {
+                    (api.unref)(f);
+                    (api.unref)(x);
+                }
+                f = g;
+                rf = rf.or(&rm.with_manager_shared(|m| K::F::var(m, v)).unwrap()).unwrap();
+            }
+            (f, rf)
+        };
+        ctx.count("ffi_calls", 3 * n as u64);
+        type H = std::hash::BuildHasherDefault<oxidd::util::FxHasher>;
+        let rn = rf.sat_count::<oxidd::util::num::Natural, H>(n, &mut Default::default()).to_string();
+        let nat = unsafe { (api.sat_count)(f, n) };
+        let s = unsafe { oxidd_natural_to_string(&nat) };
+        let text = unsafe { string_of(&s) };
+        let dbl = unsafe { (api.sat_count_double)(f, n) };
+        let want = ((1u128 << 70) - 1).to_string();
+        ctx.eval();
+        if text != want || rn != want || nat.ptr.is_null() || dbl != ((1u128 << 70) - 1) as f64 {
+            ctx.violation(&format!("{}:ffi:result-differs-from-rust:sat_count", K::NAME), format!("x0 | … | x69 over 70 variables: C {text} (heap digits: {}), Rust {rn}, expected {want}; double {dbl}", !nat.ptr.is_null()));
+        }
+        let nat2 = unsafe { oxidd_natural_clone(&nat) };
+        let x0 = unsafe { (api.var)(cm, 0) };
+        let small = unsafe { (api.sat_count)(x0, n) }; // 2^69: inline representation
+        unsafe { (api.unref)(x0) };
+        let (eq, cmp, cmp2, eq2) = unsafe { (oxidd_natural_eq(&nat, &nat2), oxidd_natural_cmp(&nat, &nat2), oxidd_natural_cmp(&small, &nat), oxidd_natural_eq(&small, &nat)) };
+        let s2 = unsafe { oxidd_natural_to_string(&nat2) };
+        ctx.eval();
+        if !eq || cmp != 0 || cmp2 != -1 || eq2 || unsafe { string_of(&s2) } != want || nat2.ptr == nat.ptr {
+            ctx.violation("ffi:natural-utils", format!("{want}: clone eq {eq} cmp {cmp}; 2^69 vs it: cmp {cmp2} eq {eq2}; clone prints {:?}; clone shares digits: {}", unsafe { string_of(&s2) }, nat2.ptr == nat.ptr));
+        }
+        unsafe {
+            oxidd_string_free(s);
+            oxidd_string_free(s2);
+            oxidd_natural_free(nat);
+            oxidd_natural_free(nat2);
+            oxidd_natural_free(small);
+            (api.unref)(f);
+        }
+        for f in ["natural_clone", "natural_eq", "natural_cmp", "natural_to_string", "natural_free", "string_free"] {
+            cover(&format!("oxidd_{f}"));
+        }
+        ctx.distinct((K::NAME, "bignat"));
+        drop(rf);
+        drop(rm);
+        unsafe { (api.manager_gc)(cm) };
+        let left = unsafe { (api.manager_num_inner_nodes)(cm) };
+        let want_nodes = if K::SEM == Sem::ZeroSup { n as usize } else { 0 };
+        ctx.eval();
+        if left != want_nodes {
+            ctx.violation(&format!("{}:ffi:nodes-left-after-unref-all", K::NAME), format!("bignat scenario: {left} nodes left, expected {want_nodes}"));
+        }
+        unsafe { (api.manager_unref)(cm) };
+        let l = wait_freed(base);
+        ctx.eval();
+        if l != base {
+            ctx.violation("ffi:manager-not-freed", format!("{} bignat scenario: LIVE_STORES {l}, baseline {base}", K::NAME));
+        }
+    }
+    /// short fixed sequences around the reference counts of the manager itself
+    fn patterns<K: FfiKind>(ctx: &mut Ctx, p: usize)
+    where
+        for<'id> MgrOf<'id, K>: HasWorkers,
+        for<'x> INodeOfFunc<'x, K::F>: HasLevel,
+    {
+        if !cfg!(oxidd_verif) {
+            return;
+        }
+        let api = K::api();
+        let k = K::NAME;
+        case_line(&format!("c19_ffi_enum pattern {p} kind={k}"));
+        let base = live_stores();
+        let mut log: Vec<String> = vec![format!("m = oxidd_{k}_manager_new(64, 16, 1)")];
+        let m = unsafe { (api.manager_new)(64, 16, 1) };
+        let alive = |ctx: &mut Ctx, log: &Vec<String>, what: &str| {
+            std::thread::sleep(std::time::Duration::from_millis(3));
+            ctx.eval();
+            if live_stores() != base + 1 {
+                ctx.violation(&format!("{k}:ffi:manager-freed-early"), format!("{} => store gone {what}", log.join(" ; ")));
+                false
+            } else {
+                true
+            }
+        };
+        let freed = |ctx: &mut Ctx, log: &Vec<String>| {
+            let l = wait_freed(base);
+            ctx.eval();
+            if l > base {
+                ctx.violation("ffi:manager-not-freed", format!("{} => LIVE_STORES {l}, baseline {base}", log.join(" ; ")));
+            } else if l < base {
+                ctx.violation("ffi:manager-freed-twice", format!("{} => LIVE_STORES {l}, baseline {base}", log.join(" ; ")));
+            }
+        };
+        match p {
+            0 => {
+                log.push(format!("oxidd_{k}_manager_unref(m)"));
+                unsafe { (api.manager_unref)(m) };
+            }
+            1 => {
+                for r in 1..=3 {
+                    // r extra references, given back one by one; the store lives until the very last unref
+                    for _ in 0..r {
+                        let m2 = unsafe { (api.manager_ref)(m) };
+                        log.push(format!("oxidd_{k}_manager_ref(m)"));
+                        ctx.check(m2 == m, &format!("{k}:ffi:returns-other-manager:manager_ref"), || log.join(" ; "));
+                    }
+                    for _ in 0..r {
+                        unsafe { (api.manager_unref)(m) };
+                        log.push(format!("oxidd_{k}_manager_unref(m)"));
+                    }
+                    if !alive(ctx, &log, "although one reference is still owned") {
+                        return;
+                    }
+                }
+                log.push(format!("oxidd_{k}_manager_unref(m)"));
+                unsafe { (api.manager_unref)(m) };
+            }
+            2 => {
+                unsafe { (api.manager_add_vars)(m, 2) };
+                let f = unsafe { (api.var)(m, 0) };
+                log.push(format!("oxidd_{k}_manager_add_vars(m, 2) ; f = oxidd_{k}_var(m, 0) ; oxidd_{k}_manager_unref(m)"));
+                unsafe { (api.manager_unref)(m) };
+                if !alive(ctx, &log, "although a function handle is still owned") {
+                    return;
+                }
+                let args = [CVarBool { var: 0, val: true }, CVarBool { var: 1, val: false }];
+                let v = unsafe { (api.eval)(f, args.as_ptr(), 2) };
+                ctx.check(v, &format!("{k}:ffi:result-differs-from-rust:eval"), || format!("{} ; eval(f, x0=1) = false", log.join(" ; ")));
+                log.push(format!("oxidd_{k}_unref(f)"));
+                unsafe { (api.unref)(f) };
+            }
+            3 => {
+                unsafe { (api.manager_add_vars)(m, 2) };
+                let f = unsafe { (api.var)(m, 1) };
+                let m2 = unsafe { (api.containing_manager)(f) };
+                log.push(format!("oxidd_{k}_manager_add_vars(m, 2) ; f = oxidd_{k}_var(m, 1) ; m2 = oxidd_{k}_containing_manager(f) ; oxidd_{k}_manager_unref(m) ; oxidd_{k}_unref(f)"));
+                ctx.check(m2 == m, &format!("{k}:ffi:returns-other-manager:containing_manager"), || log.join(" ; "));
+                unsafe { (api.manager_unref)(m) };
+                unsafe { (api.unref)(f) };
+                if !alive(ctx, &log, "although the reference from containing_manager is still owned") {
+                    return;
+                }
+                let nv = unsafe { (api.manager_num_vars)(m2) };
+                ctx.check(nv == 2, &format!("{k}:ffi:result-differs-from-rust:manager_num_vars"), || format!("{} ; num_vars(m2) = {nv}", log.join(" ; ")));
+                log.push(format!("oxidd_{k}_manager_unref(m2)"));
+                unsafe { (api.manager_unref)(m2) };
+            }
+            4 => {
+                // ref / unref of a function handle k times; the node count tells when the node is released
+                unsafe { (api.manager_add_vars)(m, 2) };
+                let want0 = if K::SEM == Sem::ZeroSup { 2 } else { 0 };
+                let x = unsafe { (api.var)(m, 0) };
+                let y = unsafe { (api.var)(m, 1) };
+                let f = unsafe { (api.and)(x, y) };
+                unsafe {
+                    (api.unref)(x);
+                    (api.unref)(y);
+                }
+                log.push(format!("add_vars(m, 2) ; x = var(m,0) ; y = var(m,1) ; f = oxidd_{k}_and(x, y) ; unref(x) ; unref(y)"));
+                unsafe { (api.manager_gc)(m) };
+                let with_f = unsafe { (api.manager_num_inner_nodes)(m) };
+                for r in 1..=3usize {
+                    for _ in 0..r {
+                        let g = unsafe { (api.ref_)(f) };
+                        ctx.check(g == f, &format!("{k}:ffi:returns-other-handle:ref"), || log.join(" ; "));
+                    }
+                    for i in 0..r {
+                        unsafe { (api.unref)(f) };
+                        unsafe { (api.manager_gc)(m) };
+                        let now = unsafe { (api.manager_num_inner_nodes)(m) };
+                        ctx.check(now == with_f, &format!("{k}:ffi:node-released-early-by:unref"), || {
+                            format!("{} ; {r} x oxidd_{k}_ref(f) ; {} x oxidd_{k}_unref(f) ; gc => {now} inner nodes, {with_f} while f is owned", log.join(" ; "), i + 1)
+                        });
+                    }
+                }
+                unsafe { (api.unref)(f) };
+                unsafe { (api.manager_gc)(m) };
+                let now = unsafe { (api.manager_num_inner_nodes)(m) };
+                ctx.check(now == want0, &format!("{k}:ffi:nodes-left-after-unref-all"), || format!("{} ; ref/unref balanced ; unref(f) ; gc => {now} inner nodes, expected {want0}", log.join(" ; ")));
+                unsafe { (api.manager_unref)(m) };
+            }
+            _ => {
+                // documented no-ops on invalid handles
+                let nm = CMgr { p: null() };
+                let r = unsafe { (api.manager_ref)(nm) };
+                unsafe { (api.manager_unref)(nm) };
+                let g = unsafe { (api.ref_)(INVALID) };
+                unsafe { (api.unref)(INVALID) };
+                log.push(format!("oxidd_{k}_manager_ref(NULL) ; oxidd_{k}_manager_unref(NULL) ; oxidd_{k}_ref(INVALID) ; oxidd_{k}_unref(INVALID)"));
+                ctx.check(r.p.is_null() && g == INVALID, &format!("{k}:ffi:invalid-operand-not-propagated:ref"), || log.join(" ; "));
+                if !alive(ctx, &log, "after no-op calls") {
+                    return;
+                }
+                unsafe { (api.manager_unref)(m) };
+                if p == 5 {
+                    unsafe { (api.print_stats)() };
+                    cover(&fq::<K>("print_stats"));
+                }
+            }
+        }
+        for f in ["manager_new", "manager_ref", "manager_unref", "ref", "unref", "containing_manager"] {
+            cover(&fq::<K>(f));
+        }
+        freed(ctx, &log);
+        ctx.distinct((k, "pattern", p));
+        ctx.count("sequences", 1);
+        ctx.count("ffi_calls", log.len() as u64);
+    }
+
+    #[derive(Clone, Debug)]
+    enum ECall {
+        Not,
+        Bin(BOp),
+        Ite,
+        Cof(u8),
+        PickDd,
+        PickDdSet,
+        Ref(u32),
+        ContainingMgr,
+        Export(u8),
+        Dot(u8),
+        RunInPool,
+        Queries,
+        Leaf(u8),
+        Restrict,
+        Quant(Quant),
+        ApplyQuant(Quant, BOp),
+        Subst(u8),
+        ZLeaf(ZOp),
+        ZVar(ZOp, u32),
+        ZBin(ZOp),
+        MakeNode,
+    }
+
+    /// all argument tuples over the given per-position domains
+    fn product(doms: &[&[usize]]) -> Vec<Vec<usize>> {
+        let mut out: Vec<Vec<usize>> = vec![vec![]];
+        for d in doms {
+            let mut next = Vec::new();
+            for p in &out {
+                for &x in *d {
+                    let mut q = p.clone();
+                    q.push(x);
+                    next.push(q);
+                }
+            }
+            out = next;
+        }
+        out
+    }
+
+    /// (call, operand tuple) pairs for one kind. Operand numbering of the prepared session:
+    /// 0 INVALID, 1 false, 2 true, 3 x0&x1, 4 x1|!x2, 5 x2, 6 x0&!x1
+    fn enum_items(quant: bool, zbdd: bool) -> Vec<(ECall, Vec<usize>)> {
+        let gen_: &[usize] = &[0, 1, 2, 3, 4];
+        let few: &[usize] = &[0, 2, 4];
+        let vars: &[usize] = &[0, 2, 3, 5];
+        let lits: &[usize] = &[0, 2, 3, 6];
+        let valid: &[usize] = &[1, 2, 3, 4];
+        let mut items: Vec<(ECall, Vec<usize>)> = Vec::new();
+        let mut push = |c: ECall, doms: &[&[usize]]| {
+            for t in product(doms) {
+                items.push((c.clone(), t));
+            }
+        };
+        for w in 0..4 {
+            push(ECall::Leaf(w), &[]);
+        }
+        push(ECall::Not, &[gen_]);
+        for op in ALL_BOPS {
+            push(ECall::Bin(op), &[gen_, gen_]);
+        }
+        push(ECall::Ite, &[gen_, gen_, gen_]);
+        for w in 0..3 {
+            push(ECall::Cof(w), &[gen_]);
+        }
+        push(ECall::PickDd, &[gen_]);
+        push(ECall::PickDdSet, &[gen_, lits]);
+        for r in 1..=3 {
+            push(ECall::Ref(r), &[&[0, 1, 3]]);
+        }
+        push(ECall::ContainingMgr, &[valid]);
+        for v in 0..4 {
+            push(ECall::Export(v), &[&[3, 1, 0]]);
+            push(ECall::Export(v), &[&[3], &[4, 3, 0]]);
+        }
+        for v in 0..3 {
+            push(ECall::Dot(v), &[&[3, 0], &[4]]);
+        }
+        push(ECall::RunInPool, &[few, few]);
+        push(ECall::Queries, &[valid]);
+        if quant {
+            push(ECall::Restrict, &[gen_, lits]);
+            for q in ALL_QUANTS {
+                push(ECall::Quant(q), &[gen_, vars]);
+                for op in [BOp::And, BOp::Xor] {
+                    push(ECall::ApplyQuant(q, op), &[few, few, &[0, 2, 3]]);
+                }
+            }
+            for w in 0..4 {
+                push(ECall::Subst(w), &[gen_]);
+            }
+        }
+        if zbdd {
+            for z in [ZOp::Singleton, ZOp::Empty, ZOp::Base] {
+                push(ECall::ZLeaf(z), &[]);
+            }
+            for z in [ZOp::Subset0, ZOp::Subset1, ZOp::Change] {
+                for v in 0..3 {
+                    push(ECall::ZVar(z, v), &[gen_]);
+                }
+            }
+            for z in [ZOp::Union, ZOp::Intsec, ZOp::Diff] {
+                push(ECall::ZBin(z), &[gen_, gen_]);
+            }
+            // var: 0 INVALID / 7 singleton {{x0}}; hi, lo (must be below x0's level): INVALID, 1 empty, 8 base, 9 {{x2}}
+            push(ECall::MakeNode, &[&[0, 7], &[0, 1, 8, 9], &[0, 1, 8, 9]]);
+        }
+        items
+    }
+
+    fn run_enum_item<K: FfiKind>(ctx: &mut Ctx, rng: &mut Rng, no: usize, call: &ECall, t: &[usize])
+    where
+        for<'id> MgrOf<'id, K>: HasWorkers,
+        for<'x> INodeOfFunc<'x, K::F>: HasLevel,
+    {
+        case_line(&format!("c19_ffi_enum item={no} kind={} call={call:?} operands={t:?}", K::NAME));
+        let mut s = Sess::<K>::new(ctx, 3, 1 << 10, false, 1, &format!("enum item {no}"));
+        // operand pool (see enum_items)
+        s.leaf(ctx, 2, 0); // 1
+        s.leaf(ctx, 3, 0); // 2
+        s.build_cube(ctx, &[(0, true), (1, true)]); // 3
+        let a = s.leaf(ctx, 1, 2);
+        let b = s.leaf(ctx, 0, 1);
+        s.bin(ctx, BOp::Or, b, a);
+        s.unref(ctx, b);
+        s.unref(ctx, a); // 4
+        s.leaf(ctx, 0, 2); // 5
+        s.build_cube(ctx, &[(0, true), (1, false)]); // 6
+        if matches!(call, ECall::MakeNode) {
+            s.z_leaf(ctx, ZOp::Singleton, 0); // 7
+            s.z_leaf(ctx, ZOp::Base, 0); // 8
+            s.z_leaf(ctx, ZOp::Singleton, 2); // 9
+        }
+        assert_eq!(s.ents.len(), if matches!(call, ECall::MakeNode) { 10 } else { 7 }, "operand pool");
+        s.logp("--".into());
+        match call {
+            ECall::Leaf(w) => {
+                for v in 0..3 {
+                    s.leaf(ctx, *w, v);
+                }
+            }
+            ECall::Not => {
+                s.not(ctx, t[0]);
+            }
+            ECall::Bin(op) => {
+                s.bin(ctx, *op, t[0], t[1]);
+            }
+            ECall::Ite => {
+                s.ite(ctx, t[0], t[1], t[2]);
+            }
+            ECall::Cof(w) => s.cofactor(ctx, *w, t[0]),
+            ECall::PickDd => {
+                s.pick_cube_dd(ctx, t[0], None);
+            }
+            ECall::PickDdSet => {
+                s.pick_cube_dd(ctx, t[0], Some(t[1]));
+            }
+            ECall::Ref(r) => {
+                for _ in 0..*r {
+                    s.ref_(ctx, t[0]);
+                }
+                for _ in 0..*r {
+                    s.unref(ctx, t[0]);
+                }
+            }
+            ECall::ContainingMgr => {
+                s.mgr_ref_ops(ctx, 0, t[0]);
+                s.mgr_ref_ops(ctx, 1, 0);
+                s.mgr_ref_ops(ctx, 2, 0);
+            }
+            ECall::Export(v) => {
+                s.dddmp_roundtrip(ctx, t, *v, if no % 2 == 0 { None } else { Some(((no / 2 % 2) as u8, no / 4 % 2 == 0)) });
+            }
+            ECall::Dot(v) => s.dump_dot(ctx, t, *v),
+            ECall::RunInPool => {
+                s.run_in_pool(ctx, t[0], t[1]);
+            }
+            ECall::Queries => {
+                s.queries(ctx, t[0], rng);
+                s.mgr_queries(ctx);
+                s.failing_exports(ctx, t[0]);
+            }
+            ECall::Restrict => {
+                s.restrict(ctx, t[0], t[1]);
+            }
+            ECall::Quant(q) => {
+                s.quant(ctx, *q, t[0], t[1]);
+            }
+            ECall::ApplyQuant(q, op) => {
+                s.apply_quant(ctx, *q, *op, t[0], t[1], t[2]);
+            }
+            ECall::Subst(w) => match w {
+                0 => s.substitute(ctx, t[0], &[], true, false),
+                1 => s.substitute(ctx, t[0], &[], false, false),
+                2 => s.substitute(ctx, t[0], &[(0, 4), (1, 3)], false, false),
+                _ => s.substitute(ctx, t[0], &[(2, 3), (0, 3), (1, 0)], false, true),
+            },
+            ECall::ZLeaf(z) => {
+                for v in 0..3 {
+                    s.z_leaf(ctx, *z, v);
+                }
+            }
+            ECall::ZVar(z, v) => {
+                s.z_var_op(ctx, *z, t[0], *v);
+            }
+            ECall::ZBin(z) => {
+                s.z_bin(ctx, *z, t[0], t[1]);
+            }
+            ECall::MakeNode => {
+                // hi == lo needs two references of the same handle
+                if t[1] == t[2] && t[1] != 0 {
+                    s.ref_(ctx, t[1]);
+                }
+                s.z_make_node(ctx, t[0], t[1], t[2]);
+            }
+        }
+        s.teardown(ctx, rng, (no % 2) as u8);
+    }
+
+    fn enum_kind<K: FfiKind>(ctx: &mut Ctx, rng: &mut Rng, counter: &mut usize)
+    where
+        for<'id> MgrOf<'id, K>: HasWorkers,
+        for<'x> INodeOfFunc<'x, K::F>: HasLevel,
+    {
+        for p in 0..6 {
+            if ctx.mine(*counter) {
+                patterns::<K>(ctx, p);
+            }
+            *counter += 1;
+        }
+        let items = enum_items(K::qapi().is_some(), K::zapi().is_some());
+        for (no, (call, t)) in items.iter().enumerate() {
+            if ctx.mine(*counter) {
+                run_enum_item::<K>(ctx, rng, no, call, t);
+            }
+            *counter += 1;
+        }
+        ctx.sample(|| format!("{}: {} enumerated (entry point, operand shape) calls, each in a fresh manager: prepare operands, call, exact reference-count audit, unref all, gc, manager freed", K::NAME, items.len()));
+    }
+
+    /// Enumerated short sequences: every function-returning entry point with every combination of
+    /// invalid / terminal / inner-node / aliased operands, plus manager life-cycle patterns.
+    pub fn c19_ffi_enum(ctx: &mut Ctx) {
+        // SAFETY: single-threaded at this point
+        unsafe { std::env::set_var("OXIDD_STACK_SIZE", "1048576") };
+        let mut rng = ctx.rng(0xC19E);
+        let mut counter = 0usize;
+        enum_kind::<Bdd>(ctx, &mut rng, &mut counter);
+        enum_kind::<Bcdd>(ctx, &mut rng, &mut counter);
+        enum_kind::<Zbdd>(ctx, &mut rng, &mut counter);
+        let _ = std::fs::remove_dir_all(tmp_dir());
+        report_coverage(ctx);
+    }
+
+    /// Random call sequences over all three kinds, mirrored call by call on the Rust API.
+    pub fn c19_ffi(ctx: &mut Ctx) {
+        // SAFETY: single-threaded at this point
+        unsafe { std::env::set_var("OXIDD_STACK_SIZE", "1048576") };
+        let mut rng = ctx.rng(0xC19F);
+        let nseq = ctx.by_tier(90, 5000);
+        let steps = ctx.by_tier(45, 90);
+        for seq in 0..nseq {
+            let small = seq % 3 == 2;
+            let vis = seq == 1;
+            match (seq + ctx.shard) % 3 {
+                0 => run_sequence::<Bdd>(ctx, &mut rng, seq, small, steps, vis),
+                1 => run_sequence::<Bcdd>(ctx, &mut rng, seq, small, steps, vis),
+                _ => run_sequence::<Zbdd>(ctx, &mut rng, seq, small, steps, vis),
+            }
+        }
+        for round in 0..ctx.by_tier(2, 12) {
+            match (round + ctx.shard) % 3 {
+                0 => threaded::<Bdd>(ctx, &mut rng, round),
+                1 => threaded::<Bcdd>(ctx, &mut rng, round),
+                _ => threaded::<Zbdd>(ctx, &mut rng, round),
+            }
+        }
+        match ctx.shard % 3 {
+            0 => bignat::<Bdd>(ctx),
+            1 => bignat::<Bcdd>(ctx),
+            _ => bignat::<Zbdd>(ctx),
+        }
+        let _ = std::fs::remove_dir_all(tmp_dir());
+        report_coverage(ctx);
+        ctx.sample(|| "random sequences: 2..5 variables, ample (16384) or tiny (3..30) node capacity, 1 or 2 worker threads; after every call: result table via oxidd_*_eval == independent interpretation of the Rust mirror, node_count equal, exact reference-count audit of the C manager against the ownership model, operands unchanged".into());
+    }
+}
